@@ -12,1844 +12,1857 @@ Definition show_fres (r : fres) : string :=
   end.
 Definition check (rs : list rune) : string := digest (show_fres (format_res rs)).
 Definition full (rs : list rune) : string := show_fres (format_res rs).
-Eval vm_compute in ("<<<M4382>>>" ++ check (runes_of_ascii "packet
-	float  {
-repeat
-
-matchKey, char[] 	 // " ++ [128512]%N ++ runes_of_ascii " emoji
-      repeatCount
-
-    `{ , }`
-    , char[
-00]  a1 , char[]roots
-`" ++ [28040; 24687; 31867; 22411]%N ++ runes_of_ascii "`,@rightPad
-(
-'0'  )	repeatCount
-    ,	match
-
-    MetaDataX
-as
-	tag{
-
-    ""`tick`""  :  tag  ,  [
-
-""it's""	,	42] 
-:
-	asx 
-
-// packet A { u8 x, }
-  ,
-
-    ""a	b""	:
-
-    As 
-65535
-: calculatedFrom
-	007:
-
-    stringy ,007
-	:	Packet // " ++ [128512]%N ++ runes_of_ascii " emoji
-    , 
+Eval vm_compute in ("<<<M3533>>>" ++ check (runes_of_ascii "options { // c1
+StringPrefixLenType
+    // c2
+=
+    // c3
+u32 // c4a
+  // c4b
+; // c5
+ArrayPrefixLenType // c6a
+  // c6b
+=
+    // c7
+u8 // c8
+; // c9a
+  // c9b
+FixedStringPadFromLeft = // c11
+false // c12a
+  // c12b
+;
+    // c13
 }
-	,
-char[  // " ++ [27880; 37322]%N ++ runes_of_ascii "
-
-	0  ] //	t
-    i8i8`a\`  , 
-}
-root packet chars 
-{ @calculatedFrom(
-""packet"") 	 // " ++ [27880; 37322]%N ++ runes_of_ascii "
-i64_  string_
-    ,
-    match  Pad  // " ++ [128512]%N ++ runes_of_ascii " emoji
-    	as MetaDataX
-    {0123456789
-
-:
-repeatCount
-
-    , [	""" ++ [128512]%N ++ runes_of_ascii """  ]:
-
-    a1
+    // c14
+packet // c15
+Logon { // c17
+i8 // c18a
+  // c18b
+venue ,
+    // c20
+int16 f1
+    // c22
 ,
-[	""" ++ [233]%N ++ runes_of_ascii "t" ++ [233]%N ++ runes_of_ascii """
-    , 
-7 
-,  //	t
-""x y""
-
-    ,00] : 
-//
-
-	// a // b
-  int ,
-
-    } , repeat  Foo
-`say ""hi""`
-	, @lengthOf(  As) u32 leftPad
+    // c23
+zchar[ // c24
+8 // c25a
+  // c25b
+] // c26a
+  // c26b
+Acct // c27a
+  // c27b
+,
+    // c28
+repeat // c29a
+  // c29b
+InNote16 { // c31
+InQty73 // c32
+{ // c33
+float32 // c34a
+  // c34b
+tag7 // c35
+, // c36
+}
+    // c37
+, f32 // c39
+Acct // c40
+, // c41a
+  // c41b
+zchar[ // c42a
+  // c42b
+5
+    // c43
+] sym // c45
+, // c46a
+  // c46b
+} , // c48
+uint16 // c49a
+  // c49b
+Side2 // c50a
+  // c50b
+, i32 // c52a
+  // c52b
+lastPx // c53
+, } // c55
+packet Fill { // c58
+repeat // c59
+InOrderid15 // c60
+{ // c61
+zchar[ // c62
+8
+    // c63
+] sym
+    // c65
+, // c66a
+  // c66b
+repeat // c67a
+  // c67b
+char[ // c68
+2 // c69
+]
+    // c70
+OrderId ,
+    // c72
+repeat Logon
+    // c74
+, // c75
+InQty82 // c76
+{ // c77a
+  // c77b
+char[] // c78
+Tail // c79
+, repeat // c81
+Logon // c82
+,
+    // c83
+float64 price , // c86
+f64 Side2
+    // c88
+, // c89
+}
+    // c90
+, char[ // c92
+12 // c93a
+  // c93b
+] // c94
+venue
+    // c95
+, // c96
+char[ // c97a
+  // c97b
+4 // c98a
+  // c98b
+] Px // c100
+, } , // c103
+@rightPad
+    // c104
+( // c105
+'0'
+    // c106
+)
+    // c107
+char[ // c108a
+  // c108b
+2 ]
+    // c110
+venue
+    // c111
+,
+    // c112
+InPrice99
+    // c113
+{ InAcct72
+    // c115
+{ u8 // c117a
+  // c117b
+pad0 , } // c120a
+  // c120b
+,
+    // c121
+u32
+    // c122
+OrderId ,
+    // c124
+Logon // c125
+, // c126a
+  // c126b
+} // c127
+, // c128
+} // c129a
+  // c129b
+root
+    // c130
+packet // c131
+Reject // c132
+{ // c133a
+  // c133b
+zchar[
+    // c134
+9 // c135
+] msgKind
+    // c137
+, // c138a
+  // c138b
+u32 // c139a
+  // c139b
+venue , // c141a
+  // c141b
+u16 // c142
+seqNo // c143a
+  // c143b
 @lengthOf(
-
-zchar)  // a // b
-    	, 
-  // " ++ [128512]%N ++ runes_of_ascii " emoji
-    	} // c
-packet
-
-    u128{	@calculatedFrom(	""`tick`""
+    // c144
+Body // c145a
+  // c145b
+) // c146
+, // c147
+match // c148
+venue as Body // c151
+{ // c152
+57 // c153
+: // c154a
+  // c154b
+Fill
+    // c155
+,
+    // c156
+8 : Logon // c159
+, }
+    // c161
+,
+    // c162
+u16
+    // c163
+Tail // c164
+@calculatedFrom(
+    // c165
+""CRC32""
+    // c166
+) , } ")).
+Eval vm_compute in ("<<<M975>>>" ++ check (runes_of_ascii "MetaData BodyLength
+    { zchar[ 42 // trailing space 
+] falsey
+    ,
+x_y_z trueish `{ , }` , options1 Header
+    `
+` , uint8
+    Header `tab	here` ,
+uint8
     // packet A { u8 x, }
-) 
-float Z9_	``
+    zchar
+    ,
+float64 len
+, } packet//x
+chars {  zchar[ 00 ]
+    options1 ,	zchar[ // c
+7 ] Header , @tag( 0	)char[] MetaDataX `line1
+line2`
+,	repeat
+metadata{ i64
+// packet A { u8 x, }
+// @lengthOf(
+MetaDataX , int8 o ,leftPad Pad ,
+string	Z9_ `u8 x,`
+, } , @leftPad
+    ( '0' ) u64 calculatedFrom
+// trailing space 
+// c
+@calculatedFrom(
+""a\""b"" )  , @lengthOf( leftPad
+    ) repeat Foo `line1
+line2`,}
+    packet options1
+//x
+//	t
+{ @tag(00	)body
+asx,
+// a // b
+// " ++ [128512]%N ++ runes_of_ascii " emoji
+repeat MetaDataX{ repeat i64
+    u8x `" ++ [233]%N ++ runes_of_ascii "`, } , pack @calculatedFrom( ""CRC32"" ) `
+`
+,  repeat Pad { Foo{
+    repeat i8i8, MetaDataX ,
+    // @lengthOf(
+    lengthOf @calculatedFrom(""abc"" )`// not a comment`	, /// triple
+}	,}  , float64 string_ @calculatedFrom( //
+""it's""	)
+`u8 x,` ,
+    i8  Z9_
+@lengthOf(_x ),
+BodyLength matchKey `tab	here`, uint64
+    // " ++ [128512]%N ++ runes_of_ascii " emoji
+    As  @calculatedFrom( ""// no comment"" ) ,  } packet leftPad { match packetx as// trailing space 
+Foo
+{ [ ""x y"" ,
+    3]
+    // " ++ [128512]%N ++ runes_of_ascii " emoji
+    : As ,
+00:
+    leftPad
+// a // b
+//	t
+, [""\n"" , """"
+    ] : MetaDataX	,
+00
+    : x
+"""" : int
+    , }, i32
+    // " ++ [27880; 37322]%N ++ runes_of_ascii "
+    Foo,repeat string
+roots  , repeat body chars `" ++ [28040; 24687; 31867; 22411]%N ++ runes_of_ascii "`,
+int `" ++ [233]%N ++ runes_of_ascii "`
+    , @rightPad (
+' ' ) string BodyLength, @lengthOf(lengthOf // " ++ [128512]%N ++ runes_of_ascii " emoji
+)
+    char uint8x `line1
+line2` , zchar[
+00 ]
+    repeatCount	@calculatedFrom( """ ++ [28040; 24687]%N ++ runes_of_ascii """ )
+, @calculatedFrom( ""a	b"") falsey
+    //x
+    @calculatedFrom( ""1"" )
+    `crlf
+line` , } //x
+packet Header { // trailing space 
+@calculatedFrom(
+""" ++ [28040; 24687]%N ++ runes_of_ascii """ ) int64 u	`crlf
+line`,
+@calculatedFrom(
+""CRC32"" ) // packet A { u8 x, }
+int64 uint8x,
+char[255
+] Foo `
+`
+    ,}
+")).
+Eval vm_compute in ("<<<M622>>>" ++ check (runes_of_ascii "
+packet
+    Logon {
+@tag( 007 )  packetx {
+    charz
+    @calculatedFrom( ""\n"") , } , } packet u128
+    { @calculatedFrom( ""1""
+//x
+// packet A { u8 x, }
+)_x@calculatedFrom( """" ) ,} options { matchKey= 0123456789 ; len = ""1"" ;//x
+Z9_= 255  Packet= '\x00' // `tick` ""quote"" 'q'
+}	root packet// packet A { u8 x, }
+Z9_ {
+@calculatedFrom(
+//
+// trailing space 
+""" ++ [233]%N ++ runes_of_ascii "t" ++ [233]%N ++ runes_of_ascii """ ) char[ 00 ]x_y_z @lengthOf( T )// c
+,As @lengthOf(
+    asx ) `tab	here` , x matchKey `{ , }`	, @leftPad ( )  @rightPad
+    () @lengthOf(a1 )float
+@lengthOf( o )`doc`
+, } root packet int
+// `tick` ""quote"" 'q'
+// c
+{@lengthOf(BodyLength ) repeat //
+zchar[
+42]
+u8x
+    `tab	here`
+,
+@leftPad  (
+    ' ' ) @calculatedFrom(""a\\"") repeat  char[
+    007
+// a // b
+//	t
+] matchKey `tab	here` , Header @lengthOf( A ), repeat roots { repeat u
+    // @lengthOf(
+    { match calculatedFrom as o {
+    255
+:metadata } , match
+BodyLength as o {""a	b"" :lengthOf // @lengthOf(
+, },string	uint8x , // c
+char[]
+    lengthOf// " ++ [27880; 37322]%N ++ runes_of_ascii "
+,}
+    , match asx as
+    pack {
+    00
+:metadata
+// `tick` ""quote"" 'q'
+// @lengthOf(
+,
+[""1"", ""abc"" , """ ++ [28040; 24687]%N ++ runes_of_ascii """
+    ,255
+    ,	4294967296 , 65535,
+255, // a // b
+255  ]: //x
+o ,
+[ 00
+    ,""it's""	, 3
+/// triple
+// c
+,""" ++ [128512]%N ++ runes_of_ascii """ // " ++ [27880; 37322]%N ++ runes_of_ascii "
+]:calculatedFrom , [
+00,
+""{,}""
+    ] : matchKey ,	""abc""
+// trailing space 
+//x
+: // @lengthOf(
+u ""x y"" : i8i8 // " ++ [27880; 37322]%N ++ runes_of_ascii "
+, }, }, crc @lengthOf(
+leftPad ) `{ , }` , stringy @calculatedFrom( ""x y"" ) `// not a comment` , uint16 calculatedFrom , }
+")).
+Eval vm_compute in ("<<<M3720>>>" ++ check (runes_of_ascii "
+packet crc{ //x
+	u16	// " ++ [128512]%N ++ runes_of_ascii " emoji
 
-,string packetx, 
+  charz ,
+    @leftPad  ( ' ' ) match
+
+    rootA
+
+as// packet A { u8 x, }
+BodyLength {
+
+""`tick`""
+:
+
+    u,
+
+    } ,  @tag(
+
+1
+
+    )	Logon`" ++ [233]%N ++ runes_of_ascii "`  , uint16
+metadata
+	`// not a comment` ,	//
+      @rightPad	( )
+    char[00
+	]body 
     // @lengthOf(
 
+// trailing space 
+    ,BodyLength
+
+    { match
+f32a
+    as 	 // packet A { u8 x, }
+    calculatedFrom 
+    // a // b
+	// " ++ [128512]%N ++ runes_of_ascii " emoji
+  {
+	255 :  len
+, 65535 : i8i8
+// " ++ [128512]%N ++ runes_of_ascii " emoji
+	// " ++ [27880; 37322]%N ++ runes_of_ascii "
+    007
+    :uint8x ,
+	}
+	    //
+		,	repeat
+	repeatCount
+    // @lengthOf(
+	/// triple
+    { repeat 
+char[
+	1 ]  string_ , repeat string 
+roots
+,
+falsey  len//x
+    	`
+` 
+, repeat
+    i64 
+calculatedFrom,
+
+}
+
+,
+u16//
+leftPad@calculatedFrom(
+""x y"" //	t
+    )  `// not a comment`, } 	 // `tick` ""quote"" 'q'
+      ,
+repeat zchar{	f32
+	packetx	@lengthOf( 
+asx
+)	, a1 stringy
+
+    ,
+string_ BodyLength 
+// packet A { u8 x, }
+		`" ++ [233]%N ++ runes_of_ascii "`, }
+
+    ,
+
+    @rightPad
+(
+
+'0'
+
+    )
+
+repeat
+
+    o
+{	repeat
+float	f32a
+    ,
+char
+packetx
+    ,	char[]
+stringy	// " ++ [27880; 37322]%N ++ runes_of_ascii "
+,
+	}
+,
+	}	root packet
+	float  // trailing space 
+{ uint16
+body
+	@lengthOf(body  )	,	match
+
+a1 
+as
+
+    Header
+
+{ ""1""
+	:
+	Z9_ ,	}
+    ,
+}
+
+    options  {	MetaDataX=
+	255
+
+    ; charz
+
+= '0'
+
+;
+matchKey =
+	""`tick`"" ;
+	rootA
+
+    = //x
+  '0'
+	; }
+")).
+Eval vm_compute in ("<<<M577>>>" ++ check (runes_of_ascii "
+packet	matchKey
+// @lengthOf(
+// " ++ [128512]%N ++ runes_of_ascii " emoji
+{ string stringy `tab	here`,} root packet
+Z9_{@lengthOf( /// triple
+o ) @calculatedFrom( """ ++ [128512]%N ++ runes_of_ascii """ )@lengthOf( matchKey // packet A { u8 x, }
+)
+u{ string
+    //	t
+    msg_type
+    , pack{ uint64 As@lengthOf(
+u128 ), // `tick` ""quote"" 'q'
+repeat i64_ `crlf
+line`
+    , }
+, } ,
+@lengthOf(
+    len ) match rootA as
+stringy	{
+[
+    65535
+    ,
+65535 ,	""`tick`""
+    , ""a\""b"" ,65535
+,
+// `tick` ""quote"" 'q'
+// a // b
+""abc"",  10] //x
+:options1
+, ""1"" :
+a1
+    // trailing space 
+    , 255	: As
+, """"
+:
+metadata ,4294967296: // @lengthOf(
+body
+, } ,  repeat // " ++ [27880; 37322]%N ++ runes_of_ascii "
+u8x , @lengthOf( asx )@tag( 10 )@calculatedFrom( ""\n"" )match Logon as options1 { ""CRC32"":
+    // c
+    charz ,[
+""\n"" ,
+10 ,  65535 , """ ++ [233]%N ++ runes_of_ascii "t" ++ [233]%N ++ runes_of_ascii """] :
+    As // " ++ [128512]%N ++ runes_of_ascii " emoji
+,// packet A { u8 x, }
+[ 4294967296 ] :repeatCount
+    , },
+    @tag(
+007 ) @leftPad ('0' ) @leftPad(' ')i16 u128 @calculatedFrom( ""packet"" )
+    ,  @leftPad
+(// " ++ [27880; 37322]%N ++ runes_of_ascii "
+)x @calculatedFrom(""\n""
+    )
+`a\` ,
+repeat zchar{ zchar[ 007]Foo
+    ,
+}
+,@tag( // `tick` ""quote"" 'q'
+42 ) match
+    chars as metadata { [""{,}"" ] : calculatedFrom ,0 :
+    x
+, 4294967296 :leftPad
+    , [//	t
+42 ] :	trueish// packet A { u8 x, }
+}, } options{  }")).
+Eval vm_compute in ("<<<M3886>>>" ++ check (runes_of_ascii "MetaData
+// " ++ [128512]%N ++ runes_of_ascii " emoji
+	// trailing space 
+
+o 
+{ 
+char[	255
+] 	 // @lengthOf(
+BodyLength, }packet 
+crc{@tag(
+
+7
+	)calculatedFrom @lengthOf( Header
+	) , len
+{ float	{ i32
+T  ,stringy	string_
+    // c
+
+,char[	// " ++ [27880; 37322]%N ++ runes_of_ascii "
+      65535
+]
+
+Packet @lengthOf( a1
+)
+``
+,falsey{
+
+    u16 Logon	`{ , }`
+, 
+}
+,
+} 
+,
+repeat 	 /// triple
+	falsey
+,repeat u8 Logon,
+
+} 
+,  zchar[	65535  ] lengthOf 
+@lengthOf( asx )
+`line1
+line2`
+    ,@rightPad (
+
+    '0') 
+int16 f32a ,
+
+@rightPad	( 	 // packet A { u8 x, }
+    '\x00' 
+)
+	char[] len 
+	    // packet A { u8 x, }
+  	`" ++ [28040; 24687; 31867; 22411]%N ++ runes_of_ascii "` , match string_ 
+as  string_ 
+  /// triple
+    {  [
+""a\\""
+, 10
+	,
+
+    007, 	 //	t
+	  0123456789
+    ]	: As ,
+[ 
+""`tick`""
+]	:	//
+metadata , ""\n"" :falsey  ,  // `tick` ""quote"" 'q'
+	[
+3
+
+,  // " ++ [27880; 37322]%N ++ runes_of_ascii "
+	""" ++ [233]%N ++ runes_of_ascii "t" ++ [233]%N ++ runes_of_ascii """
+	, 	 //	t
+  ""CRC32"" ]:
+lengthOf	, 00 :
+x_y_z
+    ,
+
+}, packetx
+
+    {
+    repeat
+    a1 `it's` 	 // packet A { u8 x, }
+
+	, stringy
+
+    `{ , }` ,	match	T as
+    MetaDataX // @lengthOf(
+  	{  ""CRC32""  :
+lengthOf
+}
+    ,
+	}
+
+    ,  }  MetaData	tag	{ 	 //x
+	}	packet 
+Z9_ {
+
+i16  rootA 
 	// packet A { u8 x, }
 
-  @leftPad (  '\x00')
-uint8
-    metadata
-,@leftPad
+// @lengthOf(
 
-(
-	)uint32 a1
-`two words`
-, 
-@tag(
-	0123456789  
-  // packet A { u8 x, }
-// packet A { u8 x, }
-  	)
-repeat	zchar[
+`
+`  // " ++ [27880; 37322]%N ++ runes_of_ascii "
 
-    42
+	,//	t
+      }")).
+Eval vm_compute in ("<<<M4194>>>" ++ check (runes_of_ascii "  MetaData As
+{ u  //
+	matchKey
+	,char[]
+T
 
-]  pack `two words`
+, char[] Foo 	 // @lengthOf(
+	`{ , }`	,
+}
+	root
+	packet
 
-,repeat
-
-stringy	`line1
-line2` ,
-	uint8x`" ++ [233]%N ++ runes_of_ascii "`
-
-    ,
-
-falsey `say ""hi""`
-    , } packet
-
-    a1
-
-{
-uint16 float
-,@lengthOf(
-	string_
-) char[
-0123456789
-
-    ]
-
-BodyLength	@lengthOf(
-	charz  /// triple
-) 
-      // `tick` ""quote"" 'q'
-    `say ""hi""` , @rightPad (
-'\x00'
-
-    )
-Z9_
-@lengthOf( zchar
-)
-    ,
-
-calculatedFrom@lengthOf(	pack
-
-) `tab	here`
-,
-@lengthOf(
-
-    MetaDataX)
-	@calculatedFrom(
-""abc"" )
-@calculatedFrom(""a\\""
-	)	match
-
-falsey //
-	as
-    body	{ 	 // " ++ [27880; 37322]%N ++ runes_of_ascii "
-	""a\""b"":	o	//x
-	,
-	255 :
-uint8x	,[	// `tick` ""quote"" 'q'
-    65535
-] :BodyLength	}
-	,/// triple
-	char[]
-    x_y_z 
-, 	 // trailing space 
-	@tag(  
-  // trailing space 
-
-  /// triple
-0  )
-    int16  x `crlf
-line`
-
-    ,
-match
-
-Foo as
-zchar 
-{
-
-""" ++ [233]%N ++ runes_of_ascii "t" ++ [233]%N ++ runes_of_ascii """ :
-u128 ,
-
-    }
-    , 
-@lengthOf( x_y_z
-    )
-
-    As	@calculatedFrom( ""packet""
+    T	{ @lengthOf( tag
     ) 
-, repeat
+@tag(0123456789
 
-    Header
-{	string_
-
-    `{ , }` 
-,
-	match
-
-chars
-    as
-    uint8x
-
-{
-	""it's"" : lengthOf	, [ ""\n"" , 3,
-""CRC32""
-    ,// a // b
-  10 
-        // " ++ [27880; 37322]%N ++ runes_of_ascii "
-,
-""" ++ [28040; 24687]%N ++ runes_of_ascii """
-	]:
-falsey }
-,
-	repeat
-	char[]	o 
-`
-`
-
-,
-i32	len
-    @calculatedFrom(
-""" ++ [233]%N ++ runes_of_ascii "t" ++ [233]%N ++ runes_of_ascii """  ) `" ++ [28040; 24687; 31867; 22411]%N ++ runes_of_ascii "`	,
-}  // trailing space 
-
-	,// " ++ [27880; 37322]%N ++ runes_of_ascii "
-}
-")).
-Eval vm_compute in ("<<<M1238>>>" ++ check (runes_of_ascii "// " ++ [27880; 37322]%N ++ runes_of_ascii "
-packet A	{@calculatedFrom(
-    ""a	b"" ) u128 @lengthOf( asx /// triple
-)
-    `doc` , // `tick` ""quote"" 'q'
-charz
-    @lengthOf( repeatCount  ), i8 metadata @lengthOf( body )
-    `{ , }` ,
-@tag(
-    // `tick` ""quote"" 'q'
-    0123456789
-    ) repeat
-x_y_z lengthOf
-, @calculatedFrom(""{,}"" ) options1 { match metadata
-as chars  {""// no comment"": matchKey ,} , } , Z9_
-// trailing space 
-// @lengthOf(
-`` , repeat i64_``,  @tag( 42) uint8	chars @calculatedFrom(""abc"" ) , }MetaData charz
-{ char[]Packet
-, i64 string_
-    `{ , }` , // " ++ [128512]%N ++ runes_of_ascii " emoji
-int64 a1`tab	here`, }
-packet
-    matchKey//	t
-{
-    repeat x {string
-    // c
-    Logon`doc`
-    , } ,repeat
-u32// trailing space 
-chars
-    ,@calculatedFrom( // c
-""`tick`"") o falsey `say ""hi""` ,zchar[	007  ]string_ @lengthOf(Header ) `line1
-line2`
-    // trailing space 
-    ,match  x as uint8x {1 //
-:a1  ,  [ ""a	b"" , 42 ,
-65535 ]
-: T ,
-""" ++ [28040; 24687]%N ++ runes_of_ascii """ : metadata
-// packet A { u8 x, }
-// c
-, }
-    , match Z9_
-as	msg_type // a // b
-{ 65535: //	t
-u ,[
-// " ++ [128512]%N ++ runes_of_ascii " emoji
-// c
-7 ,
-    7// trailing space 
-, 42
-,""" ++ [28040; 24687]%N ++ runes_of_ascii """ ]
-    :
-asx ,""" ++ [233]%N ++ runes_of_ascii "t" ++ [233]%N ++ runes_of_ascii """ : _x,[
-// `tick` ""quote"" 'q'
-// " ++ [27880; 37322]%N ++ runes_of_ascii "
-255 ] : metadata , }// `tick` ""quote"" 'q'
-, float32 len	, repeat
-    len , @tag( 007
-    ) repeat f64
-pack
-    // trailing space 
-    ,
-} packet stringy
-    {
-// trailing space 
-// packet A { u8 x, }
-@lengthOf(As
-    ) @calculatedFrom(  ""\" ++ [233]%N ++ runes_of_ascii """ )@tag(
-7 ) u8 x_y_z@lengthOf( pack
-) `crlf
-line` ,
-uint8 chars `doc`
-,
-@calculatedFrom(""CRC32""	)
-@leftPad ( '0'	)
-    // @lengthOf(
-    @lengthOf(  leftPad ) match packetx
-// @lengthOf(
-// " ++ [128512]%N ++ runes_of_ascii " emoji
-as
-float	{[ ""// no comment"" ,
-007 ] :msg_type
-    , //	t
-1 // packet A { u8 x, }
-:
-    rootA
-, 7 : lengthOf // " ++ [128512]%N ++ runes_of_ascii " emoji
-,	[ // a // b
-""" ++ [128512]%N ++ runes_of_ascii """ ] :
-x , [ //
-42  , // `tick` ""quote"" 'q'
-65535 ]:// " ++ [27880; 37322]%N ++ runes_of_ascii "
-falsey ,// " ++ [27880; 37322]%N ++ runes_of_ascii "
-}
-//	t
-// packet A { u8 x, }
-, char[1 ] lengthOf @lengthOf(metadata	),u8 crc @calculatedFrom(
-""" ++ [128512]%N ++ runes_of_ascii """
-) `say ""hi""` , }
-")).
-Eval vm_compute in ("<<<M1006>>>" ++ check (runes_of_ascii "root packet len
-    { @lengthOf(
-// " ++ [128512]%N ++ runes_of_ascii " emoji
-//	t
-A ) repeat u64 packetx
-,@calculatedFrom( ""a	b"" ) repeat charz { BodyLength calculatedFrom,
-    leftPad // " ++ [128512]%N ++ runes_of_ascii " emoji
-`it's` ,
-int32 // `tick` ""quote"" 'q'
-msg_type// " ++ [27880; 37322]%N ++ runes_of_ascii "
-, float64 i64_ , } ,
-    // c
-    string
-    MetaDataX
-@lengthOf(roots )
-, @lengthOf( len )
-@lengthOf( Logon )
-// " ++ [128512]%N ++ runes_of_ascii " emoji
-// @lengthOf(
-calculatedFrom @calculatedFrom( ""// no comment"" ) , zchar[3
-// a // b
-//	t
-] MetaDataX@calculatedFrom( ""it's""
-    ) `a\`
-,@leftPad//
-('0' )match//
-Foo as
-As { [ ""{,}"" , 255
-] : metadata , ""{,}"":
-Header,
-    // trailing space 
-    [""\n"" ] : stringy , ""a	b"" : x ,} // `tick` ""quote"" 'q'
-, @tag( 0123456789
-    // packet A { u8 x, }
-    ) Foo  {	char[ 0 ]// @lengthOf(
-rootA
-, },
-    // packet A { u8 x, }
-    i64_
-leftPad
-`a\` ,string A , match BodyLength as float  {
-7 : MetaDataX , 007:
-    int,  }
-,
-    } MetaData
-    crc{ u8 o `crlf
-line` ,	} // " ++ [128512]%N ++ runes_of_ascii " emoji
-packet crc
-{repeat
-    uint32 Foo`a\` , /// triple
-a1 ,
-@rightPad (' '
-    )repeat roots
-    ,
-@calculatedFrom(
-    """ ++ [233]%N ++ runes_of_ascii "t" ++ [233]%N ++ runes_of_ascii """ )  @rightPad ( ) BodyLength ,  repeat x_y_z ``,@rightPad ( ) repeat string pack  `
-` , @calculatedFrom( """ ++ [128512]%N ++ runes_of_ascii """ )
-    int64 Foo//x
-,
-char[ 65535 ] Foo // trailing space 
-@lengthOf( BodyLength )
-, @lengthOf(charz) //
-trueish // trailing space 
-charz
-, } packet msg_type
-    {u32
-Foo `line1
-line2` , T
-{
-pack ,  char[]
-    int , zchar[ 1 ]
-    _x @lengthOf( Pad) `it's` , }  ,
-msg_type ,
-    falsey lengthOf ,
-    char[
-    4294967296 ]
-string_
-@lengthOf(Pad) , @calculatedFrom( ""\n"" ) //
-o @lengthOf( options1	) , }
-    // c
-    packet u	{
-}
-")).
-Eval vm_compute in ("<<<M484>>>" ++ check (runes_of_ascii "packet stringy
-//	t
-/// triple
-{ @tag(0123456789 )
-match matchKey as
-    // @lengthOf(
-    i64_ { 7// a // b
-:
-    // " ++ [27880; 37322]%N ++ runes_of_ascii "
-    Header
-    [ /// triple
-""a\""b"", 65535 ]:  stringy ,  ""abc"": // a // b
-options1 ,0123456789 :
-u ,
-""1"" :lengthOf , }
-    ,repeat uint64 uint8x	`two words`
-, @rightPad ( ) @rightPad ('0' )repeat As
-body`doc`
-    //
-    ,repeat // @lengthOf(
-zchar {len, }  , @calculatedFrom(
-    ""abc"" )	@calculatedFrom( ""1""
-)@rightPad (
-    '0') char[]
-    zchar @lengthOf(
-u ) `line1
-line2`
-, Header @calculatedFrom(
-// c
-// packet A { u8 x, }
-""CRC32"" )
-`{ , }`,
-u64 A `tab	here`
-,@leftPad ( ) @tag( 10) @tag( 4294967296)
-o `doc` , uint8	a1
-    /// triple
-    , repeat f64 leftPad ,
-} MetaData _x
-{ rootA float
-    `tab	here` , tag
-    o`crlf
-line`
-,} packet Pad {
-    match MetaDataX as
-A { [
-    4294967296 // a // b
-, 42 ,""`tick`"" ,0
-    ,10	,  1
-, 10
-, 3 ]
-    :
-// packet A { u8 x, }
-// @lengthOf(
-A  ,""packet"" : Packet }
-    //x
-    , @calculatedFrom( ""CRC32"" ) // @lengthOf(
-crc // a // b
-@lengthOf(// packet A { u8 x, }
-leftPad )`say ""hi""` , BodyLength options1 `say ""hi""`
-,
-    repeat len
-    // " ++ [128512]%N ++ runes_of_ascii " emoji
-    {
-    // a // b
-    char[]
-Header
-    // `tick` ""quote"" 'q'
-    ,
-i16 rootA , string
-uint8x @lengthOf( Header  )
-`it's` , repeat u16 x_y_z`
-`, } ,	} packet As { x MetaDataX ,
-}
-")).
-Eval vm_compute in ("<<<M3710>>>" ++ check (runes_of_ascii "packet stringy {
-    @tag(0123456789)
-    match matchKey as i64_ {
-        7 : Header,
-        [65535, ""a\""b""] : stringy,
-        ""abc"" : options1,
-        0123456789 : u,
-        ""1"" : lengthOf,
-    },
-    repeat uint64 uint8x `two words`,
-    @rightPad()
-    @rightPad('0')
-    repeat As body `doc`,
-    repeat zchar {
-        len,
-    },
-    @calculatedFrom(""abc"")
-    @calculatedFrom(""1"")
-    @rightPad('0')
-    char[] zchar @lengthOf(u) `line1
-    line2`,
-    Header @calculatedFrom(""CRC32"") `{ , }`,
-    u64 A `tab	here`,
-    @leftPad()
-    @tag(10)
-    @tag(4294967296)
-    o `doc`,
-    uint8 a1,
-    repeat f64 leftPad,
-}
-
-MetaData _x {
-    rootA float `tab	here`,
-    tag o `crlf
-    line`,
-}
-
-packet Pad {
-    match MetaDataX as A {
-        [
-            4294967296, 42, 0, 10, 1,
-            10, 3, ""`tick`""
-        ] : A,
-        ""packet"" : Packet,
-    },
-    @calculatedFrom(""CRC32"")
-    // @lengthOf(
-    crc @lengthOf(leftPad) `say ""hi""`,
-    BodyLength options1 `say ""hi""`,
-    repeat len {
-        // a // b
-        char[] Header,
-        i16 rootA,
-        string uint8x @lengthOf(Header) `it's`,
-        repeat u16 x_y_z `
-        `,
-    },
-}
-
-packet As {
-    x MetaDataX,
-}")).
-Eval vm_compute in ("<<<M4214>>>" ++ check (runes_of_ascii "MetaData falsey {
-    i8 Logon,
-    len metadata `doc`,
-}
-
-MetaData Foo {
-    char[65535] calculatedFrom `
-    `,
-    matchKey zchar,
-    u stringy `
-    `,
-    MetaDataX u `say ""hi""`,
-}
-
-packet msg_type {
-    @lengthOf(Z9_)
-    @lengthOf(x)
-    @tag(0)
-    calculatedFrom {
-        msg_type @calculatedFrom(""CRC32"") `say ""hi""`,
-        repeat matchKey {
-            repeat T {
-                char[1] T,
-                repeatCount `line1
-                line2`,
-                match int as x {
-                    ""packet"" : options1,
-                    00 : calculatedFrom,
-                    00 : falsey,
-                },
-            },
-            char[] uint8x,
-            match Packet as falsey {
-                7 : f32a,
-                // a // b
-                10 : u,
-                1 : Header,
-                [0, ""packet"", ""a	b""] : o,
-                0123456789 : chars,
-            },
-            zchar[65535] Foo,
-        },
-    },
-}// packet A { u8 x, }
-
-root packet u {
-    @tag(007)
-    i32 stringy @lengthOf(a1) `{ , }`,
-}
-
-MetaData string_ {
-    uint64 chars `crlf
-    line`,
-    char[3] u8x `a\`,
-}")).
-Eval vm_compute in ("<<<M4192>>>" ++ check (runes_of_ascii "options {
-    u = ""a\""b"";
-    Z9_ = ""// no comment"";
-    tag = 7
-}
-
-root packet As {
-}
-
-packet Header {
-    @lengthOf(Foo)
-    rootA @calculatedFrom(""\" ++ [233]%N ++ runes_of_ascii """),
-    @calculatedFrom(""CRC32"")
-    float64 crc,
-    repeat char[007] Logon,//
-    @tag(7)
-    @calculatedFrom(""{,}"")
-    @lengthOf(stringy)
-    match A as f32a {
-        // `tick` ""quote"" 'q'
-        [
-            1, 007, ""a\\"", ""CRC32"", ""a	b"",
-            ""\" ++ [233]%N ++ runes_of_ascii """
-        ] : trueish,
-        4294967296 : u8x,
-    },
-    @tag(255)
-    @lengthOf(u8x)
-    @calculatedFrom(""x y"")
-    pack {
-        uint16 uint8x,
-    },
-    match leftPad as asx {
-        ""{,}"" : T,
-        007 : _x,
-        1 : options1,
-        [42, 007] : calculatedFrom,
-        """ ++ [233]%N ++ runes_of_ascii "t" ++ [233]%N ++ runes_of_ascii """ : lengthOf,
-    },
-    u8x {
-        int64 charz `line1
-                line2`,
-    },
-    repeat Header BodyLength `
-        `,
-    @rightPad('\x00')
-    @lengthOf(tag)
-    match o as uint8x {
-        [255] : _x,
-        1 : matchKey,
-        // " ++ [128512]%N ++ runes_of_ascii " emoji
-        //x
-        65535 : tag,
-        0123456789 : zchar,
-        ""a\\"" : metadata,
-    },
-}")).
-Eval vm_compute in ("<<<M4198>>>" ++ check (runes_of_ascii "options {
-    StringPrefixLenType = u8;
-    ArrayPrefixLenType = u8;
-    FixedStringPadFromLeft = true;
-    FixedStringPadChar = ' ';
-}
-
-packet Logout {
-    repeat string Px,
-    repeat string seqNo,
-    InMsgkind64 {
-        uint16 OrderId,
-        char[] count,
-        repeat i32 venue,
-    },
-}
-
-packet Heartbeat {
-    float32 tag7,
-    repeat InPrice50 {
-        repeat char[5] lastPx,
-        InRef42 {
-            u8 pad0,
-        },
-        uint32 Acct,
-        repeat Logout,
-        repeat char[5] Qty,
-    },
-    repeat InSeqno30 {
-        repeat Logout,
-    },
-    @leftPad('0')
-    char[12] Acct,
-    char[] Side2,
-    repeat string msgKind,
-}
-
-packet Ack {
-    Heartbeat,
-    char[8] seqNo,
-    float64 clOrdID,
-}
-
-packet Trade {
-    char[] OrderId,
-    f64 Side2,
-    zchar[8] f1,
-    string Qty,
-    float64 seqNo,
-    repeat Logout,
-}
-
-packet Order {
-    f32 OrderId,
-    repeat u8 x,
-    Ack,
-    zchar[7] Note,
-}
-
-root packet Logon {
-    @rightPad('\x00')
-    char[9] f1,
-}")).
-Eval vm_compute in ("<<<M1196>>>" ++ check (runes_of_ascii "options	{metadata=  char[]
-; asx  =
-    ""// no comment""crc
-    = """ ++ [128512]%N ++ runes_of_ascii """ ;
-    }
-packet int { char[ 1 ] BodyLength // packet A { u8 x, }
-,  u8x `say ""hi""` ,  Pad
-, @rightPad
-(  '\x00'	) trueish @calculatedFrom( """ ++ [233]%N ++ runes_of_ascii "t" ++ [233]%N ++ runes_of_ascii """ ) `// not a comment`
-    ,	repeat body /// triple
-, @lengthOf(
-Z9_) match
-    Header as repeatCount
-{
-255 :
-_x ,
-[ 65535, ""a\""b"" ,
-    7,// trailing space 
-65535  , 10,
-""a\""b""
-    , 007, // " ++ [27880; 37322]%N ++ runes_of_ascii "
-""x y""
-] : MetaDataX
-    4294967296
-:
-    msg_type	""{,}""
-    : f32a , ""`tick`"" :
-asx //	t
-, 007
-    : A,} // packet A { u8 x, }
-,  @calculatedFrom(""1"" ) repeat string// packet A { u8 x, }
-crc ,match rootA as
-MetaDataX { ""1""	:
-MetaDataX , 7 // c
-:trueish ,007 : stringy  , 007
-    : i64_ } ,@rightPad
-( '\x00'// a // b
-)
-a1
-    `u8 x,`
-// c
-// a // b
-, }
-packet	int { repeat i64_
-    // c
-    { chars
-repeatCount
-    , } , } root packet
-//
-// c
-x_y_z {} MetaData  i64_  { // `tick` ""quote"" 'q'
-zchar[ /// triple
-7 ] uint8x , // " ++ [128512]%N ++ runes_of_ascii " emoji
-}
-")).
-Eval vm_compute in ("<<<M576>>>" ++ check (runes_of_ascii "
-root
-    packet
-    //	t
-    len{roots@calculatedFrom( ""\n"" ) , } root packet u { @lengthOf( i8i8
-) float64 Header@calculatedFrom(
-    ""1""
-)
-`a\`  ,
-lengthOf { stringy @lengthOf( BodyLength
-)
-, float64 BodyLength // trailing space 
-`tab	here`
-,/// triple
-int16 a1@calculatedFrom( ""{,}""
-) `{ , }`, BodyLength ,
-} ,
-@tag(1	)  @rightPad	( ) @rightPad
-(
-'0' ) // @lengthOf(
-packetx
-@calculatedFrom( ""\n"") ,// @lengthOf(
-@lengthOf( Pad ) zchar[ 65535
-// packet A { u8 x, }
-// trailing space 
-]
-    // trailing space 
-    lengthOf , char[// " ++ [27880; 37322]%N ++ runes_of_ascii "
-007]	string_ `// not a comment`	, @rightPad ( )
-    repeat //	t
-string falsey , @tag( 4294967296)
-    //x
-    char Foo `
-`,  match	options1	as body {65535 :	o
-4294967296 :
-tag, ""x y"": trueish
-    // packet A { u8 x, }
-    , ""packet""
-    :
-As , [ 0123456789]: rootA ,
-""x y"":
-uint8x ,} ,
-} MetaData x { metadata
-zchar`" ++ [28040; 24687; 31867; 22411]%N ++ runes_of_ascii "` , } options { Foo = char[ 255 ] ;
-}")).
-Eval vm_compute in ("<<<M4462>>>" ++ check (runes_of_ascii "root packet len {
-    roots @calculatedFrom(""\n""),
-}
-
-root packet u {
-    @lengthOf(i8i8)
-    float64 Header @calculatedFrom(""1"") `a\`,
-    lengthOf {
-        stringy @lengthOf(BodyLength),
-        float64 BodyLength `tab	here`,/// triple
-        int16 a1 @calculatedFrom(""{,}"") `{ , }`,
-        BodyLength,
-    },
-    @tag(1)
-    @rightPad()
-    @rightPad('0')
-    // @lengthOf(
-    packetx @calculatedFrom(""\n""),// @lengthOf(
-    @lengthOf(Pad)
-    zchar[65535] lengthOf,
-    char[007] string_ `// not a comment`,
-    @rightPad()
-    repeat string falsey,
-    @tag(4294967296)
-    //x
-    char Foo `
-    `,
-    match options1 as body {
-        65535 : o,
-        4294967296 : tag,
-        ""x y"" : trueish,
-        ""packet"" : As,
-        [0123456789] : rootA,
-        ""x y"" : uint8x,
-    },
-}
-
-MetaData x {
-    metadata zchar `" ++ [28040; 24687; 31867; 22411]%N ++ runes_of_ascii "`,
-}
-
-options {
-    Foo = char[255];
-}")).
-Eval vm_compute in ("<<<M3907>>>" ++ check (runes_of_ascii "packet chars {
-    @lengthOf(zchar)
-    @tag(42)
-    match roots as As {
-        255 : x,
-        0123456789 : charz,
-        3 : T,
-    },
-    match body as Logon {
-        ""packet"" : metadata,
-    },
-    match As as i64_ {
-        7 : metadata,
-        00 : i64_,
-        [""a\""b"", ""\n"", """ ++ [28040; 24687]%N ++ runes_of_ascii """] : falsey,
-        ""abc"" : i8i8,
-        7 : u128,
-    },//
-    BodyLength @lengthOf(stringy) `// not a comment`,
-    repeat f64 BodyLength,
-    int64 Z9_,
-    @calculatedFrom(""// no comment"")
-    @leftPad('0')
-    @tag(3)
-    repeat char[007] chars,
-    f64 x_y_z,
-    stringy `u8 x,`,
-    @lengthOf(i8i8)
-    // trailing space 
-    roots rootA,
-}
-
-options {
-    matchKey = float32;
-    Z9_ = u8
-    f32a = true
-}
-
-root packet u128 {
-    @rightPad('\x00')
-    Pad falsey `// not a comment`,//x
-    int32 Z9_ @lengthOf(falsey),
-}")).
-Eval vm_compute in ("<<<M514>>>" ++ check (runes_of_ascii "root packet As { @tag(
-    4294967296 )
-packetx // packet A { u8 x, }
-, @calculatedFrom(
-""" ++ [128512]%N ++ runes_of_ascii """ )i32 crc // " ++ [128512]%N ++ runes_of_ascii " emoji
-, @lengthOf( x_y_z )@lengthOf(
-    // a // b
-    body
-// a // b
-// c
-) BodyLength {
-match repeatCount
-    as int
-    { ""\" ++ [233]%N ++ runes_of_ascii """:body , // packet A { u8 x, }
-""// no comment""  : falsey
-,""abc"" :
-tag ""a	b"":zchar,
-    // trailing space 
-    007 : Packet ,}	, // " ++ [128512]%N ++ runes_of_ascii " emoji
-} , repeat falsey trueish
-    ,
-@leftPad(
-    ' '
-)
-@lengthOf(// packet A { u8 x, }
-Logon )
-@leftPad ( )int@lengthOf( u8x ), zchar[
-// " ++ [27880; 37322]%N ++ runes_of_ascii "
-// packet A { u8 x, }
-007 ]falsey ,
-    @rightPad
-() float @lengthOf( Logon ) , @rightPad( '\x00' ) @calculatedFrom( /// triple
-""a	b"" )Z9_ u8x, @tag( 3 ) string_ u128, }options  {
-u128 = ""it's"" ;
-metadata =  ""abc""string_
-    =
-    true	;f32a= // c
-true }
-packet i8i8{
-}
-")).
-Eval vm_compute in ("<<<M678>>>" ++ check (runes_of_ascii "packet
-    msg_type {  @rightPad
-( '\x00')	calculatedFrom
-chars,
-} packet
-// " ++ [128512]%N ++ runes_of_ascii " emoji
-// " ++ [27880; 37322]%N ++ runes_of_ascii "
-string_ { }
-MetaData o{ zchar[ 65535
-] a1
-, } root
-packet Foo {	f32a{ // " ++ [128512]%N ++ runes_of_ascii " emoji
-match len
-as
-Packet { [ 3
-    ] : body ,
-7: o  [ 00 ,
-    0 ,""x y"" // trailing space 
-,
-    // trailing space 
-    42 ]: u , """ ++ [28040; 24687]%N ++ runes_of_ascii """
-: Pad , }, i64
-A, string u8x, match stringy as As {65535 : i8i8 // " ++ [27880; 37322]%N ++ runes_of_ascii "
-, //x
-""CRC32"":u8x [ ""a\""b""
-    ,// @lengthOf(
-7 , ""\n""
-    , ""{,}"" , 0
-,
-// `tick` ""quote"" 'q'
-// a // b
-42, ""a\""b"" ]
-: MetaDataX // trailing space 
-,[ ""abc""] :
-    falsey
-, // @lengthOf(
-[ ""`tick`"" ]
-: calculatedFrom //
-, }
-,
-    } //x
-, } // " ++ [128512]%N ++ runes_of_ascii " emoji
-options
-{body = ""CRC32""
-    ; body =
-""a\""b""	u128
-= true ;
-    BodyLength  = // " ++ [128512]%N ++ runes_of_ascii " emoji
-10;
-leftPad=
-false ;}
-
-")).
-Eval vm_compute in ("<<<M4286>>>" ++ check (runes_of_ascii "MetaData rootA{  u64 trueish
-
-    , metadata	calculatedFrom// @lengthOf(
-		, 
-
-// " ++ [128512]%N ++ runes_of_ascii " emoji
-  // `tick` ""quote"" 'q'
-    	u8 u128
-, chars pack
-
-,
-    zchar lengthOf `line1
-line2`  , }
-root packet//	t
-    len 
-{@lengthOf( 
-trueish
     )
-i8	Z9_ `" ++ [28040; 24687; 31867; 22411]%N ++ runes_of_ascii "`  , @leftPad
-
-    (
-
-)  match 
-zchar  // " ++ [27880; 37322]%N ++ runes_of_ascii "
-    as
-trueish 
-{00  :
-As  , """ ++ [128512]%N ++ runes_of_ascii """ 
-:
-    o , [  42
-
-    ]	:	a1 
-    // `tick` ""quote"" 'q'
-
-  // `tick` ""quote"" 'q'
-  ,10 	 // trailing space 
-    :
-len 
-}
-
-,
-repeat
-	As,
-	@leftPad	(
-
-    '0' 
-) int32 calculatedFrom ,
-repeat
-    Header	,  @rightPad
-    //
-
-// " ++ [27880; 37322]%N ++ runes_of_ascii "
-	( ' '
-
-    ) 	 // packet A { u8 x, }
-  	calculatedFrom 
-repeatCount, msg_type
-
-    @lengthOf(	// c
-	T
-),
-    }packet
-
-    calculatedFrom {
-}
-")).
-Eval vm_compute in ("<<<M3614>>>" ++ check (runes_of_ascii "
-packet 
-falsey { @leftPad
-
-(  ) zchar[ 1
-]
-f32a 
-,	_x  // a // b
-
-{int32 u128 ,	rootA
-    ,
-    } 
-,	@rightPad 
-(  '\x00'	)
-	// " ++ [27880; 37322]%N ++ runes_of_ascii "
-  char
-matchKey
-,	@lengthOf( As	)
-match
-
-pack
-    as
-
-    BodyLength
-    { ""1"" : 
-tag ,  [ 
-65535
-    ] :
-msg_type 
-,
-
-[ ""`tick`""
-
-]
-	:	falsey,  ""// no comment"" :  u128
-
-    ,
-    } ,	// " ++ [128512]%N ++ runes_of_ascii " emoji
-	match
-
-    len
-
-as	Z9_
-    {  [
-    ""a	b""
-	,
-
-    10  ]
-	:
-	Foo 
-, 255
-
-:  int
-,0123456789	:  tag,
-1 
-    /// triple
-	:metadata,[
-
-00 ,4294967296,""" ++ [28040; 24687]%N ++ runes_of_ascii """ ]
-:	//	t
-roots , [  42 
-,
-
-    4294967296
-,10
-    , 00, 
-4294967296	]
-:int
-,
-},
-    @calculatedFrom(
-	""{,}""
-)
-
-repeat
-_x 	 // c
-		{tag 	 // a // b
-	`doc`
-
-,
-    } 
-, } ")).
-Eval vm_compute in ("<<<M1261>>>" ++ check (runes_of_ascii "MetaData o  {
-    } packet leftPad{ charz
-{ match u as repeatCount{[
-    1]
-:	x_y_z , 00
-: matchKey// c
-[""\" ++ [233]%N ++ runes_of_ascii """ , 7 ,""abc"" ,""`tick`"" ]
-: MetaDataX
-    // packet A { u8 x, }
-    ,
-    65535:
-    o , ""abc""
-: matchKey ,
-} , } ,
-    // trailing space 
-    len
-`say ""hi""` , // @lengthOf(
-@rightPad (
-    ' ' ) char[	00] Pad , }packet Pad{
-@leftPad ( // @lengthOf(
-'\x00' )u128@calculatedFrom( ""a\\"" ) , @rightPad	('\x00'
-    )@rightPad
-( )
-    @calculatedFrom( ""a\""b"" )
-    // trailing space 
-    Z9_ metadata``
-    , @calculatedFrom(
-""x y""  ) tag @lengthOf(matchKey) , repeat zchar //
-{
-    uint8x u, } ,
-    // `tick` ""quote"" 'q'
-    }")).
-Eval vm_compute in ("<<<M3531>>>" ++ check (runes_of_ascii "options {
-    LittleEndian = true;
-    FixedStringPadFromLeft = true;
-    FixedStringPadChar = '0';
-}
-packet Trade {
-    string clOrdID,
-    char[] Px,
-    u32 x,
-}
-packet Reject {
-    int32 Side2,
-    repeat char[3] clOrdID,
-    i32 tag7,
-}
-packet Leg {
-}
-root packet Quote {
-    string Side2,
-    string lastPx,
-    InSym58 {
-        int16 OrderId,
-        Reject,
-        i8 Qty,
-        i64 venue,
-        f32 Note,
-    },
-    char[] count,
-    zchar[9] price,
-    u16 Qty,
-    match Qty as Body {
-        69 : Leg,
-        48 : Trade,
-        51 : Reject,
-    },
-    u16 Acct @calculatedFrom(""CRC32""),
-}
-")).
-Eval vm_compute in ("<<<M1384>>>" ++ check (runes_of_ascii "MetaData u8x {  _x Foo `say ""hi""`
-, }MetaData x_y_z { char rootA ,
-    }
-    options {
-    f32a	= true} packet lengthOf {
-    zchar[
-    // `tick` ""quote"" 'q'
-    255 ]  trueish@calculatedFrom(	""" ++ [233]%N ++ runes_of_ascii "t" ++ [233]%N ++ runes_of_ascii """	) ,@lengthOf( len) zchar[
-007  ] // packet A { u8 x, }
-roots @lengthOf( o)
-// @lengthOf(
-// `tick` ""quote"" 'q'
-, char[
-7 ] o, Pad`
-`
-, char[ 42
-]
-f32a//
-@lengthOf( crc) , @lengthOf(
-// `tick` ""quote"" 'q'
-// @lengthOf(
-lengthOf//
-) @calculatedFrom(
-""CRC32"" )@leftPad	( '0' )
-//	t
-// " ++ [27880; 37322]%N ++ runes_of_ascii "
-repeat
-crc Foo
-, asx @lengthOf( trueish ) `a\`	,	@lengthOf( o ) string crc `it's` , }
-")).
-Eval vm_compute in ("<<<M4277>>>" ++ check (runes_of_ascii "options {
-}
-
-MetaData falsey {
-    rootA calculatedFrom,
-    float32 a1 `u8 x,`,
-}
-
-packet MetaDataX {
-    repeat roots Z9_,
-    int16 lengthOf `" ++ [233]%N ++ runes_of_ascii "`,
-    string MetaDataX,
-    @lengthOf(rootA)
-    repeat options1 {
-        Pad o `
-        `,// c
-    },
-    @tag(0)
-    @leftPad('\x00')
-    char As,
-    uint16 i64_ @lengthOf(i64_) `line1
-    line2`,
-    @lengthOf(uint8x)
-    Packet {
-        int32 As,
-        u64 falsey,
-        repeat matchKey {
-            int i64_,
-        },
-    },
-    @tag(3)
-    char[] options1 @lengthOf(Header),
-}")).
-Eval vm_compute in ("<<<M649>>>" ++ check (runes_of_ascii "options //	t
-{ // " ++ [128512]%N ++ runes_of_ascii " emoji
-Logon =
-' '; }	packet
-x_y_z {
-// a // b
-// `tick` ""quote"" 'q'
-@lengthOf( calculatedFrom )//
-match asx as len{ [""\" ++ [233]%N ++ runes_of_ascii """, 255
-    , ""x y""
-    , 7	,
-""" ++ [233]%N ++ runes_of_ascii "t" ++ [233]%N ++ runes_of_ascii """  , ""\" ++ [233]%N ++ runes_of_ascii """ ]:	tag, ""packet"" : o
-[ 7 , """ ++ [28040; 24687]%N ++ runes_of_ascii """  , """ ++ [28040; 24687]%N ++ runes_of_ascii """
-,
-    /// triple
-    ""CRC32"" ]	: _x,
-/// triple
-// @lengthOf(
-[3 // " ++ [128512]%N ++ runes_of_ascii " emoji
-, 007// a // b
-, ""packet"" , // " ++ [27880; 37322]%N ++ runes_of_ascii "
-"""" ,
-""CRC32"",0123456789
-    //
-    ] : lengthOf
-    // " ++ [27880; 37322]%N ++ runes_of_ascii "
-    , 7 : crc // @lengthOf(
-, 42	://
-zchar,  },int, } MetaData A {
-    BodyLength Foo `// not a comment` ,}
-")).
-Eval vm_compute in ("<<<M84>>>" ++ check (runes_of_ascii "MetaData
-    /// triple
-    Logon
-{zchar[
-    3 ] a1
-    `" ++ [28040; 24687; 31867; 22411]%N ++ runes_of_ascii "`
-    , char[ 007 ]
-MetaDataX `a\` ,
-}  root packet
-    pack { }
-packet
-    // trailing space 
-    i64_
-{  @lengthOf(chars
-)
-    len	{ uint8 rootA`doc` ,
-string_ `crlf
-line` //x
-, //	t
-match charz as
-Foo
-{
-    42 : options1 , [255
-    ]:charz
-    } , }, roots repeatCount
-    `two words` /// triple
-,
-    //	t
-    string Logon @calculatedFrom( ""a\""b"") , @calculatedFrom(// `tick` ""quote"" 'q'
-""a\\""	) Z9_
-    ,
-} //x")).
-Eval vm_compute in ("<<<M857>>>" ++ check (runes_of_ascii "packet
-    charz// `tick` ""quote"" 'q'
-{
-@rightPad
-    ( '0' ) match leftPad as stringy
-{	007
-//	t
-// " ++ [128512]%N ++ runes_of_ascii " emoji
-:
-    a1 [ 42 , ""{,}"",""`tick`"" ,
-    10
-//	t
-/// triple
-]
-    :rootA , ""a	b"" :  Logon},// @lengthOf(
-} packet/// triple
-float  {	repeat pack { zchar[ 255
-    // `tick` ""quote"" 'q'
-    ]// `tick` ""quote"" 'q'
-repeatCount @lengthOf( uint8x ) `u8 x,` , }
-    ,
-    // " ++ [27880; 37322]%N ++ runes_of_ascii "
-    charz
-@lengthOf(
-    _x )
-`it's` ,// @lengthOf(
-} root packet  rootA
-    { //
-}
-")).
-Eval vm_compute in ("<<<M636>>>" ++ check (runes_of_ascii "options { }// " ++ [27880; 37322]%N ++ runes_of_ascii "
-root
-    packet leftPad {match T as u8x{ // trailing space 
-4294967296
-// packet A { u8 x, }
-//x
-: Logon, ""1"" :i8i8 ,
-0123456789 : tag, ""a\""b"" // @lengthOf(
-: //x
-options1 , 4294967296  : T
-    }
-    , repeat matchKey {
-repeat string rootA ,  repeat
-    // @lengthOf(
-    int64
-    zchar `
-` , } , i32 x_y_z ,
-zchar[ 007 ] packetx `it's`,
-// a // b
-// `tick` ""quote"" 'q'
-repeat
-    // " ++ [128512]%N ++ runes_of_ascii " emoji
-    zchar[	255 ] falsey , } // " ++ [27880; 37322]%N)).
-Eval vm_compute in ("<<<M3636>>>" ++ check (runes_of_ascii "packet u {
-    @calculatedFrom("""")
-    float64 i8i8,
-    @tag(42)
-    @lengthOf(Z9_)
-    @tag(00)
-    Logon metadata,
-    float64 packetx,// c
-    char[] trueish @calculatedFrom(""// no comment"") `" ++ [28040; 24687; 31867; 22411]%N ++ runes_of_ascii "`,
-    leftPad,
-    repeat i32 x,
-    @calculatedFrom(""" ++ [233]%N ++ runes_of_ascii "t" ++ [233]%N ++ runes_of_ascii """)
-    u16 As,
-    repeat char[] Header,
-    match T as falsey {
-        10 : string_,
-    },
-}
-
-packet A {
-    zchar[42] rootA,
-    f32 pack @lengthOf(zchar),// @lengthOf(
-}")).
-Eval vm_compute in ("<<<M3894>>>" ++ check (runes_of_ascii "MetaData
-    o	// a // b
-
-{u32 
-string_
-
-, char[]
-a1
-    `crlf
-line`
-
-    ,
-
-int8 options1 , }
-    packet
-
-    Foo
-    {  @lengthOf( matchKey	)
-	f32 f32a
-    ,	@tag(
-	0 ) // @lengthOf(
-match
-
-    MetaDataX
-    as
-
-    trueish
-    { //	t
-255  :
-T	, 4294967296:	pack
-// a // b
-      , 3
-
-    :
-
-    falsey ,
-""1""
-
-:uint8x ,
-
-    7 :
-u128 4294967296
-	: 
-      // " ++ [27880; 37322]%N ++ runes_of_ascii "
-	MetaDataX,
-}  , i32  //
-	roots, }")).
-Eval vm_compute in ("<<<M4280>>>" ++ check (runes_of_ascii "options { }  //	t
-options 
-{  MetaDataX
-
-=""""  ;
-	int//x
-  	=
-    true ;	int=""abc""
-	; // @lengthOf(
+    match
 	repeatCount
 
-=  true
-    T
-	=  ""a\\"" 
-; } MetaData
+    as
+    BodyLength{	""" ++ [233]%N ++ runes_of_ascii "t" ++ [233]%N ++ runes_of_ascii """
+    :o 
+, 65535
 
-len
+    :
+    float
+,""a	b""
 
-    {
-A
-int
+    :
+	_x
 
-, string
-    T
-    `tab	here`	,repeatCount lengthOf
-`it's`
-    ,	Pad	Pad
-,}
-	MetaData MetaDataX
+    , [
+	""x y"" ,65535 
+    // packet A { u8 x, }
+  //x
+	] 
+:string_ , }
+,  }
+	root 
+packet
 
-    /// triple
-    // " ++ [27880; 37322]%N ++ runes_of_ascii "
-    {
+    _x {
+
+match
+	msg_type  
+  // trailing space 
+    as f32a{ 
+""\" ++ [233]%N ++ runes_of_ascii """
+    :Header
+3 :
+repeatCount
+[
+    7	,	""a	b""
+    ]:
+_x 
+,
+""it's""
+    :
+
+    stringy
+    10:
     //	t
-	  // trailing space 
-  uint8	matchKey	`" ++ [233]%N ++ runes_of_ascii "`
 
-, repeatCount crc
+/// triple
+	  As
+, ""it's""
+: lengthOf }
+	, @calculatedFrom(
+	""packet"") int64  // `tick` ""quote"" 'q'
+      falsey
+, @leftPad// packet A { u8 x, }
+( 
+) 
+    //	t
+  //
 
-    ,  char[]As
-,}
+char[
+1 ]
+
+len// @lengthOf(
+
+@lengthOf(	Foo )
+, 
+chars T, zchar[ 
+007
+
+    ]options1 , 
+match
+
+f32a
+    as asx 
+{ [ ""1""
+
+    ]
+: 
+matchKey
+,
+""" ++ [28040; 24687]%N ++ runes_of_ascii """
+	: As
+, 
+	// c
+4294967296
+	: 
+options1  , }
+	,
+	} MetaData
+	o 
+{ zchar[ 42
+] 
+repeatCount
+
+, packetx
+
+    falsey,	Packet 
+options1
+
+`{ , }`
+
+,
+}options {	falsey=	""a\\""}// " ++ [128512]%N ++ runes_of_ascii " emoji
+ 
 ")).
-Eval vm_compute in ("<<<M3781>>>" ++ check (runes_of_ascii "options {
+Eval vm_compute in ("<<<M3209>>>" ++ check (runes_of_ascii "// top
+root
+    // c0
+packet
+    // c1
+msg_type
+    // c2
+{
+    // c3
+i64
+    // c4
+options1
+    // c5
+,
+    // c6
+@lengthOf(
+    // c7
+f32a
+    // c8
+)
+    // c9
+repeat
+    // c10
+uint16
+    // c11
+Foo
+    // c12
+,
+    // c13
+@calculatedFrom(
+    // c14
+""x y""
+    // c15
+)
+    // c16
+repeat
+    // c17
+int64
+    // c18
+pack
+    // c19
+,
+    // c20
+@leftPad
+    // c21
+(
+    // c22
+' '
+    // c23
+)
+    // c24
+uint8
+    // c25
+Foo
+    // c26
+,
+    // c27
+}
+    // c28
+packet
+    // c29
+rootA
+    // c30
+{
+    // c31
+f32a
+    // c32
+x
+    // c33
+`two words`
+    // c34
+,
+    // c35
+char
+    // c36
+asx
+    // c37
+@lengthOf(
+    // c38
+falsey
+    // c39
+)
+    // c40
+`u8 x,`
+    // c41
+,
+    // c42
+@lengthOf(
+    // c43
+i64_
+    // c44
+)
+    // c45
+uint16
+    // c46
+chars
+    // c47
+,
+    // c48
+@tag(
+    // c49
+0
+    // c50
+)
+    // c51
+string
+    // c52
+_x
+    // c53
+@calculatedFrom(
+    // c54
+""abc""
+    // c55
+)
+    // c56
+`// not a comment`
+    // c57
+,
+    // c58
+}
+    // c59
+")).
+Eval vm_compute in ("<<<M3823>>>" ++ check (runes_of_ascii "
+root packet
+body
+    {
+	@tag(
+
+255 ) chars 
+calculatedFrom
+
+,
+
+    //	t
+    @rightPad
+	(	'0'
+
+    ) @calculatedFrom(
+""a	b"" 	 // " ++ [128512]%N ++ runes_of_ascii " emoji
+    ) @rightPad
+(
+) stringy@calculatedFrom(
+    ""it's""
+
+    )  // " ++ [128512]%N ++ runes_of_ascii " emoji
+  , repeat
+	string 
+trueish/// triple
+,
+
+@calculatedFrom(
+    // `tick` ""quote"" 'q'
+	""""
+) asx @lengthOf(
+options1
+)  `doc`
+
+    , u32	Logon
+,
+float64	// packet A { u8 x, }
+    i64_
+	@lengthOf(
+    metadata
+
+    ),
+
+@calculatedFrom(
+    ""`tick`""  )
+	chars
+    @lengthOf(
+	len  )  `line1
+line2`
+	, f32a 
+  /// triple
+    	{
+match 
+trueish  as roots
+    { ""1"" :
+body ""// no comment""
+
+    : 
+Packet
+
+,
+
+[42
+,
+	""it's"" , 0
+
+, 	 // " ++ [128512]%N ++ runes_of_ascii " emoji
+
+""it's""  ]
+:
+
+    charz  ,  ""a\""b""
+:  stringy, 
+
+    // a // b
+  	//x
+  }
+
+    ,
+
+    } 
+,uint8x
+{
+    zchar[ 10 
+] As, }  // trailing space 
+      ,	@tag(  0123456789
+	)
+	@rightPad
+	( 
+'0'  ) @calculatedFrom( """"
+)asx 
+@lengthOf(	trueish)
+, 
+}	root packet	trueish
+    {
+	}")).
+Eval vm_compute in ("<<<M1132>>>" ++ check (runes_of_ascii "packet charz { zchar @lengthOf( body) , string
+    BodyLength``
+,
+    float
+`" ++ [233]%N ++ runes_of_ascii "` , @lengthOf( len ) @tag(
+    255
+)@calculatedFrom(	""{,}"" )a1 int `two words` //x
+,
+char[3 ] float @calculatedFrom( ""CRC32"" )  , repeat int32 stringy
+, //
+@tag( 3 )  @tag( 3
+    ) a1
+{ match chars as //x
+roots {
+""it's""  : o
+    ""CRC32"" : stringy ,	0123456789 :Pad ,[
+""a	b"" , """ ++ [128512]%N ++ runes_of_ascii """ ] :
+body // c
+, }, char[ /// triple
+42	] u8x ,char[ 255
+// " ++ [27880; 37322]%N ++ runes_of_ascii "
+//	t
+]
+x_y_z
+@calculatedFrom( ""packet""
+    )
+    ,
+    match body
+as BodyLength
+    { 10
+: zchar,007 :uint8x
+, ""a\""b"" :
+Header,
+""x y"" :chars	007 : f32a //	t
+,} ,
+} , match
+    T	as // trailing space 
+stringy{
+10 :float ,
+    // trailing space 
+    0
+: string_ 10 : crc,
+7 : chars ,7  : body ,	}
+, repeat crc
+`
+` , } MetaData roots {	char[]  string_  `{ , }`,} root packet As {
+    @rightPad	( ' ' ) i64 leftPad @calculatedFrom(  ""abc"" )	`doc` , char[]options1 ,}
+")).
+Eval vm_compute in ("<<<M4332>>>" ++ check (runes_of_ascii "options {
+    o = '\x00';
+}
+
+packet tag {
+    int16 falsey `two words`,
+    /// triple
+    T,
+}
+
+packet asx {
+    match T as falsey {
+        7 : x,
+    },
+    zchar[4294967296] matchKey @calculatedFrom(""`tick`"") `" ++ [233]%N ++ runes_of_ascii "`,
+    @lengthOf(calculatedFrom)
+    // " ++ [128512]%N ++ runes_of_ascii " emoji
+    crc {
+        repeat A {
+            msg_type,
+            repeat char[] zchar `{ , }`,
+            u16 pack,// " ++ [128512]%N ++ runes_of_ascii " emoji
+            u8 metadata @lengthOf(leftPad) `" ++ [28040; 24687; 31867; 22411]%N ++ runes_of_ascii "`,
+        },
+    },
+    msg_type {
+        repeat Foo {
+            match Foo as Pad {
+                [65535] : charz,
+                [""`tick`""] : o,
+                255 : pack,
+            },
+            char[] packetx,
+            zchar[7] i8i8,
+        },//	t
+    },
+    i8 chars,
+}
+
+root packet metadata {
+    match uint8x as u8x {
+        65535 : x_y_z,
+    },
+}
+
+MetaData leftPad {
+    i32 u128,
+}// " ++ [27880; 37322]%N)).
+Eval vm_compute in ("<<<M4442>>>" ++ check (runes_of_ascii "packet BodyLength {
+    @calculatedFrom(""1"")
+    @tag(10)
+    @lengthOf(Pad)
+    char[0123456789] asx `" ++ [233]%N ++ runes_of_ascii "`,
+    char[] msg_type @calculatedFrom(""""),
+    @tag(4294967296)
+    repeat a1 {
+        char[007] Logon `crlf
+        line`,
+        // a // b
+        u32 trueish `u8 x,`,
+        match Z9_ as body {
+            ""1"" : Packet,
+            0 : x,
+        },
+        int16 options1 `" ++ [233]%N ++ runes_of_ascii "`,
+    },
+}
+
+options {
+    rootA = true;// @lengthOf(
+    uint8x = ' '
+    matchKey = char[];
+    stringy = ' '
+    options1 = 4294967296
+}
+
+options {
+    stringy = true
+    chars = ' '
+}
+
+packet T {
+    string Pad @calculatedFrom(""\" ++ [233]%N ++ runes_of_ascii """),//	t
+    repeat MetaDataX {
+        repeat u32 body `line1
+        line2`,
+        string crc @lengthOf(As) `" ++ [28040; 24687; 31867; 22411]%N ++ runes_of_ascii "`,
+    },/// triple
+    repeat float32 Header `a\`,
+    float `a\`,
+}")).
+Eval vm_compute in ("<<<M85>>>" ++ check (runes_of_ascii "packet chars
+{}// c
+packet
+len
+{
+    repeat char[] Foo
+, @rightPad ('0' ) zchar[ 007 ]/// triple
+a1`say ""hi""` , repeat BodyLength  leftPad ,}
+root	packet u8x { f64 lengthOf
+    @calculatedFrom(
+""CRC32""	)
+    ,
+    string
+zchar @lengthOf( int)
+    `crlf
+line` , int calculatedFrom , @lengthOf(As ) match falsey as asx {
+65535: _x
+    [ 1 ] :
+    u 007:	uint8x
+00:	f32a
+, """ ++ [233]%N ++ runes_of_ascii "t" ++ [233]%N ++ runes_of_ascii """ :	Packet ,[ 42 ,""a\""b"" ] : len
+    //x
+    , } , @lengthOf(stringy
+    // " ++ [128512]%N ++ runes_of_ascii " emoji
+    )@calculatedFrom(  ""1"" )repeat A { char[]lengthOf  `it's` , }
+, _x `" ++ [28040; 24687; 31867; 22411]%N ++ runes_of_ascii "` ,
+    @leftPad ('0'
+    ) match Foo as
+crc {10 :
+    trueish
+// " ++ [27880; 37322]%N ++ runes_of_ascii "
+//
+, 42
+:// " ++ [128512]%N ++ runes_of_ascii " emoji
+Pad
+, [4294967296
+,  ""// no comment"" , ""{,}"" ]:
+float
+    ,  } , @lengthOf( u8x ) a1
+// c
+// trailing space 
+@calculatedFrom( ""\" ++ [233]%N ++ runes_of_ascii """ ) // c
+,} 	 ")).
+Eval vm_compute in ("<<<M3602>>>" ++ check (runes_of_ascii "MetaData Logon {
+    int x `u8 x,`,
+    i16 calculatedFrom `say ""hi""`,
+    trueish x_y_z `// not a comment`,
+}
+
+options {
+    len = true;
+}
+
+packet crc {
+    @lengthOf(matchKey)
+    repeat body {
+        uint64 chars,
+        match Packet as float {
+            ""// no comment"" : calculatedFrom,
+        },
+        u64 body,
+        i8i8 lengthOf `doc`,
+    },
+    repeat o,
+    match f32a as int {
+        255 : u8x,
+        ""x y"" : As,
+        ""\" ++ [233]%N ++ runes_of_ascii """ : _x,
+        0 : _x,
+        ""1"" : uint8x,
+    },
+    match falsey as float {
+        [""`tick`""] : string_,
+        10 : u8x,
+        """" : crc,
+        /// triple
+        0 : rootA,
+        ""abc"" : i64_,
+    },
+    @rightPad(' ')
+    repeat float32 o `// not a comment`,
+    o As `a\`,
+}")).
+Eval vm_compute in ("<<<M4041>>>" ++ check (runes_of_ascii "
+//x
+
+packet Packet  {	}	// " ++ [128512]%N ++ runes_of_ascii " emoji
+  packet
+A {	@calculatedFrom(  ""a	b""
+
+)  @tag( 
+      // `tick` ""quote"" 'q'
+
+00
+
+    )
+char[ 4294967296]
+
+    u128	`` ,
+	}  options
+{
+	lengthOf
+	=
+
+""" ++ [233]%N ++ runes_of_ascii "t" ++ [233]%N ++ runes_of_ascii """ 
+;crc
+
+    =	""CRC32"" ;
+} packet
+
+    crc
+
+{ @tag(	255
+
+    )
+@rightPad
+(  )	repeat 
+        //
+      Pad
+
+,
+
+zchar[ 3
+	] charz
+@lengthOf( zchar )`say ""hi""`, 
+repeat 
+Header
+    string_``  // @lengthOf(
+,len @calculatedFrom(
+""`tick`""
+
+) 
+, 
+@tag(
+
+    65535
+)
+    match
+chars
+	as
+msg_type{ 4294967296 :
+
+    roots
+, 
+""" ++ [233]%N ++ runes_of_ascii "t" ++ [233]%N ++ runes_of_ascii """ :_x
+    ,	""CRC32"" : leftPad,// packet A { u8 x, }
+    42	: MetaDataX
+
+, 
+    // a // b
+	// c
+[
+    ""a	b""]
+: i64_/// triple
+""`tick`"" :
+
+MetaDataX ,
+}	,
+    }
+")).
+Eval vm_compute in ("<<<M193>>>" ++ check (runes_of_ascii "options {
+// c
+//x
+u128 = true ; Header // trailing space 
+= ""packet""
+    stringy =""CRC32"" A =
+    '0' ;} packet calculatedFrom  { repeat
+u128
+    Logon ,
+// packet A { u8 x, }
+// " ++ [128512]%N ++ runes_of_ascii " emoji
+}
+packet body { @calculatedFrom( ""\" ++ [233]%N ++ runes_of_ascii """
+)
+    metadata
+`a\`  ,
+// c
+// c
+stringy{
+    //	t
+    uint8 A `tab	here` , repeat
+    u
+    // `tick` ""quote"" 'q'
+    As
+, /// triple
+zchar[
+65535]x_y_z@lengthOf(
+crc ) //
+, }  , @calculatedFrom(
+    ""{,}"" )len /// triple
+@lengthOf(	roots ) ,char[  7 ]BodyLength`{ , }` ,
+    // c
+    int64
+    _x , @calculatedFrom(""it's""// " ++ [27880; 37322]%N ++ runes_of_ascii "
+) match
+pack as As { ""CRC32"": o
+    ,
+    } , zchar[ 4294967296]i64_@calculatedFrom( ""// no comment"" ) ,
+}
+")).
+Eval vm_compute in ("<<<M523>>>" ++ check (runes_of_ascii "packet zchar{
+    i32 zchar @calculatedFrom( ""abc"") `a\` // c
+,Pad Logon `tab	here`
+// c
+// a // b
+,
+// a // b
+/// triple
+@tag(
+    /// triple
+    0 ) Packet{
+x_y_z
+matchKey,
+float64 Logon
+@lengthOf( uint8x ) , } // c
+,
+packetx i64_ `" ++ [28040; 24687; 31867; 22411]%N ++ runes_of_ascii "` ,
+    repeat char[] As	`two words`, } MetaData packetx{ options1 Z9_
+`crlf
+line` , char[] pack
+//
+// `tick` ""quote"" 'q'
+,	string
+charz
+    `// not a comment`,
+    /// triple
+    char[]
+string_
+, // a // b
+asx int //	t
+`u8 x,` ,	} options
+{
+rootA =""a\\""
+leftPad = ' ' ;
+    leftPad= '\x00' ; }MetaData i8i8 { charz // trailing space 
+zchar , string
+    chars // c
+, int8 repeatCount`it's` , }
+")).
+Eval vm_compute in ("<<<M1154>>>" ++ check (runes_of_ascii "// " ++ [27880; 37322]%N ++ runes_of_ascii "
+packet
+leftPad { // a // b
+string As `{ , }`, char[
+42 ] msg_type , @lengthOf( i8i8 ) match
+Foo as matchKey //	t
+{
+1  :chars ,
+65535 : o 7 :
+    calculatedFrom , [65535,  7 , ""a	b""
+    ] :int
+, [
+00 ,
+0 , ""x y"" ,
+    65535//	t
+, """ ++ [128512]%N ++ runes_of_ascii """  ,007,
+""it's"",
+    """" ]
+    :
+Packet
+, """" :	float ,}	,
+u64 Logon
+@calculatedFrom( """ ++ [128512]%N ++ runes_of_ascii """), @calculatedFrom(
+""a	b"" ) pack {float32 charz
+    `line1
+line2` // `tick` ""quote"" 'q'
+, } ,
+} MetaData u128
+    {	repeatCount
+    len
+`" ++ [233]%N ++ runes_of_ascii "`
+, BodyLength//x
+charz
+, u8x trueish  `a\` ,Header msg_type
+`line1
+line2` ,
+    string  stringy , // " ++ [128512]%N ++ runes_of_ascii " emoji
+char[] u128
+    `" ++ [233]%N ++ runes_of_ascii "`, }options { }")).
+Eval vm_compute in ("<<<M1053>>>" ++ check (runes_of_ascii "//	t
+packet len {repeat
+Logon
+    { i16 leftPad, }
+    ,
+@calculatedFrom( ""a\""b"" ) repeat/// triple
+u16
+// trailing space 
+//x
+u,
+@calculatedFrom(
+    // a // b
+    ""abc""
+)
+Header `two words` , u8	pack@calculatedFrom(""" ++ [233]%N ++ runes_of_ascii "t" ++ [233]%N ++ runes_of_ascii """
+    // " ++ [128512]%N ++ runes_of_ascii " emoji
+    )  , } // @lengthOf(
+packet string_
+{ stringy @calculatedFrom( // " ++ [128512]%N ++ runes_of_ascii " emoji
+""it's"" )
+    ,	}packet
+chars
+{
+    // `tick` ""quote"" 'q'
+    match
+matchKey as _x
+{
+    ""abc"" :
+Packet// " ++ [128512]%N ++ runes_of_ascii " emoji
+} , // @lengthOf(
+char Foo `doc` ,match
+    charz as
+    Foo
+    {[ 1  , ""\" ++ [233]%N ++ runes_of_ascii """ ]	: Logon ,}	,@lengthOf(
+pack)/// triple
+Packet ,	} // a // b")).
+Eval vm_compute in ("<<<M3775>>>" ++ check (runes_of_ascii "//	t
+packet len {
+    repeat Logon {
+        i16 leftPad,
+    },
+    @calculatedFrom(""a\""b"")
+    repeat u16 u,
+    @calculatedFrom(""abc"")
+    Header `two words`,
+    u8 pack @calculatedFrom(""" ++ [233]%N ++ runes_of_ascii "t" ++ [233]%N ++ runes_of_ascii """),
+}// @lengthOf(
+
+packet string_ {
+    stringy @calculatedFrom(""it's""),
 }
 
 packet chars {
-    @tag(255)
     // `tick` ""quote"" 'q'
-    i8 crc @calculatedFrom(""\n"") `crlf
-    line`,
-    @rightPad(' ')
-    repeatCount @lengthOf(zchar),
-    leftPad {
-        char[] a1,
-        match trueish as Z9_ {
-            ""a\\"" : Foo,
-            ""a\""b"" : chars,
-        },
-        zchar[42] asx `a\`,
+    match matchKey as _x {
+        ""abc"" : Packet,
+        // " ++ [128512]%N ++ runes_of_ascii " emoji
+    },// @lengthOf(
+    char Foo `doc`,
+    match charz as Foo {
+        [1, ""\" ++ [233]%N ++ runes_of_ascii """] : Logon,
     },
-    @lengthOf(T)
-    calculatedFrom int,
-}")).
-Eval vm_compute in ("<<<M431>>>" ++ check (runes_of_ascii "packet roots{char[  007 ]
-len ,  repeat char[]
-// c
-/// triple
-Pad
-    `" ++ [233]%N ++ runes_of_ascii "` , //x
-repeat rootA {
-match roots as falsey{
-    ""a	b""  : f32a ,}	,string chars
-    ,
-match rootA as lengthOf{ 10 // " ++ [27880; 37322]%N ++ runes_of_ascii "
-: Foo ,  ""abc"" : A ,
-    65535:u8x ,
-    [ 255
-,
-""CRC32""
-] :
-len } //x
-, }
-// " ++ [27880; 37322]%N ++ runes_of_ascii "
-// @lengthOf(
-,} MetaData calculatedFrom
+    @lengthOf(pack)
     /// triple
-    {matchKey zchar`a\`,
-}
-")).
-Eval vm_compute in ("<<<M320>>>" ++ check (runes_of_ascii "packet Pad { int16 charz `` ,
-    @calculatedFrom(""a\""b"" // `tick` ""quote"" 'q'
-)
-    @tag(	1  )
-    zchar[ //	t
-4294967296
-    // packet A { u8 x, }
-    ] A, @rightPad () chars , // " ++ [27880; 37322]%N ++ runes_of_ascii "
-uint8x { zchar[
-0  ] // @lengthOf(
-zchar // " ++ [27880; 37322]%N ++ runes_of_ascii "
-`tab	here`
-, msg_type f32a ,u8 roots@calculatedFrom(""x y""  ) `crlf
-line`, /// triple
-As rootA
-// " ++ [27880; 37322]%N ++ runes_of_ascii "
-//
-, } , }
-")).
-Eval vm_compute in ("<<<M1398>>>" ++ check (runes_of_ascii "
-packet i8i8 // " ++ [27880; 37322]%N ++ runes_of_ascii "
-{@calculatedFrom(
-    """ ++ [233]%N ++ runes_of_ascii "t" ++ [233]%N ++ runes_of_ascii """) @calculatedFrom(	""" ++ [28040; 24687]%N ++ runes_of_ascii """ )
-repeat
-    leftPad {  uint64 A	@lengthOf( pack ) , As@calculatedFrom(""\n"" ) `it's` , i64_ @calculatedFrom( """ ++ [233]%N ++ runes_of_ascii "t" ++ [233]%N ++ runes_of_ascii """
-    ) , u64 u ,
-    } , repeat u8
-/// triple
-// a // b
-Logon `u8 x,` , options1
-    @calculatedFrom("""" ),
-    repeat string packetx `{ , }` , //
-}
-")).
-Eval vm_compute in ("<<<M1082>>>" ++ check (runes_of_ascii "  options{ } options	{ x
-=true }
-    MetaData uint8x
-{ i8i8 u8x `tab	here` , char[
-0123456789
-    ] calculatedFrom  `` , float64 uint8x
-    , charz
-    options1
-,} options { i8i8 = char[	007 ]
-// " ++ [27880; 37322]%N ++ runes_of_ascii "
-// " ++ [27880; 37322]%N ++ runes_of_ascii "
-;
-    } options
-    { options1 ='\x00'; // packet A { u8 x, }
-zchar= '\x00' //
-string_ //x
-=//
-""" ++ [128512]%N ++ runes_of_ascii """
-;
-body='0' } 	 ")).
-Eval vm_compute in ("<<<M4068>>>" ++ check (runes_of_ascii "options {
-    i64_ = ""it's"";
-    Foo = ""\n"";
-    x_y_z = '\x00';
-    len = '0'
-}
-
-root packet Packet {
-    @tag(0)
-    match crc as A {
-        [
-            255, ""`tick`"", ""`tick`"", ""packet"", ""CRC32"",
-            ""\n"", ""a\\""
-        ] : T,
-        // c
-    },
-    repeat float64 x,
-    zchar[00] chars,
-}//	t")).
-Eval vm_compute in ("<<<M4393>>>" ++ check (runes_of_ascii "  // packet A { u8 x, }
-    	packet string_
-{ char[
-
-4294967296
-] charz 
-,}
-
-    packet _x //x
-{
-}
-packet	As  { // @lengthOf(
-}root
-	packet string_
-{
-i64
-u128 
-,  // `tick` ""quote"" 'q'
-    	} 
-root // packet A { u8 x, }
-    packet
-Foo
-
-{
-    match	// " ++ [128512]%N ++ runes_of_ascii " emoji
-
-	A
-    as 
-Pad { 1
-
-:
-u128 } ,	} ")).
-Eval vm_compute in ("<<<M1442>>>" ++ check (runes_of_ascii "root packet Foo // " ++ [128512]%N ++ runes_of_ascii " emoji
-{ } options char
-    // a // b
-    tag // `tick` ""quote"" 'q'
-= //	t
-""""
-    ; u8x = zchar[0  ] }
-MetaData
-    int {zchar[ 10]
-lengthOf	`` , i64 u8x`// not a comment` ,MetaDataX pack// `tick` ""quote"" 'q'
-`crlf
-line`
-, Logon charz `crlf
-line`
-    ,
-    // a // b
-    }
-")).
-Eval vm_compute in ("<<<M1597>>>" ++ check (runes_of_ascii "root packet Foo // " ++ [128512]%N ++ runes_of_ascii " emoji
-{ } options {
-    // a // b
-    tag // `tick` ""quote"" 'q'
-= //	t
-""""
-    ; u8x = zchar[0  ] }
-MetaData
-    int {zchar[ 10]
-lengthOf	`` , i64 u8x`// not a comment` ,MetaDataX pack// `tick` ""quote"" 'q'
-`crlf
-line`
-, Logon charz `crlf
-line`
-    u64
-    // a // b
-    }
-")).
-Eval vm_compute in ("<<<M1452>>>" ++ check (runes_of_ascii "root packet Foo // " ++ [128512]%N ++ runes_of_ascii " emoji
-{ } options {
-    // a // b
-    tag // `tick` ""quote"" 'q'
-} //	t
-""""
-    ; u8x = zchar[0  ] }
-MetaData
-    int {zchar[ 10]
-lengthOf	`` , i64 u8x`// not a comment` ,MetaDataX pack// `tick` ""quote"" 'q'
-`crlf
-line`
-, Logon charz `crlf
-line`
-    ,
-    // a // b
-    }
-")).
-Eval vm_compute in ("<<<M1270>>>" ++ check (runes_of_ascii "root
-    // trailing space 
-    packet
-//	t
-//
-trueish { @tag(
-0)
-@lengthOf( float) @lengthOf(
-trueish) repeat uint8 Logon
-    `line1
-line2`
-,  char[]
-body @lengthOf(A )
-`
-`,
-// " ++ [128512]%N ++ runes_of_ascii " emoji
-// c
-repeat
-    // packet A { u8 x, }
-    char[ 00
-    ]MetaDataX , @leftPad (  ) repeat int8 pack
-,}
-")).
-Eval vm_compute in ("<<<M1464>>>" ++ check (runes_of_ascii "root packet Foo // " ++ [128512]%N ++ runes_of_ascii " emoji
-{ } options {
-    // a // b
-    tag // `tick` ""quote"" 'q'
-= //	t
-""""
-    ;  = zchar[0  ] }
-MetaData
-    int {zchar[ 10]
-lengthOf	`` , i64 u8x`// not a comment` ,MetaDataX pack// `tick` ""quote"" 'q'
-`crlf
-line`
-, Logon charz `crlf
-line`
-    ,
-    // a // b
-    }
-")).
-Eval vm_compute in ("<<<M1494>>>" ++ check (runes_of_ascii "root packet Foo // " ++ [128512]%N ++ runes_of_ascii " emoji
-{ } options {
-    // a // b
-    tag // `tick` ""quote"" 'q'
-= //	t
-""""
-    ; u8x = zchar[0  ] }
-
-    int {zchar[ 10]
-lengthOf	`` , i64 u8x`// not a comment` ,MetaDataX pack// `tick` ""quote"" 'q'
-`crlf
-line`
-, Logon charz `crlf
-line`
-    ,
-    // a // b
-    }
-")).
-Eval vm_compute in ("<<<M1128>>>" ++ check (runes_of_ascii "//x
-MetaData
-    // packet A { u8 x, }
-    rootA{
-    //	t
-    zchar[ 42 ]
-    msg_type
-    //
-    ,matchKey
-    trueish , // c
-}  packet charz{ @leftPad
-    ('0')
-    metadata packetx  ,
-    } MetaData	f32a { zchar[
-    007]
-    // a // b
-    rootA,u32 calculatedFrom , }")).
-Eval vm_compute in ("<<<M1070>>>" ++ check (runes_of_ascii "// packet A { u8 x, }
-packet string_ {
-char[4294967296 ]charz , } packet _x//x
-{ }
-packet As
-    { // @lengthOf(
-} root
-    packet
-string_
-{ i64
-u128 ,// `tick` ""quote"" 'q'
-} root // packet A { u8 x, }
-packet
-Foo {match // " ++ [128512]%N ++ runes_of_ascii " emoji
-A as Pad{ 1 :	u128 } , }
-")).
-Eval vm_compute in ("<<<M1385>>>" ++ check (runes_of_ascii "packet
-    metadata  { @rightPad
-    //x
-    ( '\x00'
+    Packet,
+}// a // b")).
+Eval vm_compute in ("<<<M1181>>>" ++ check (runes_of_ascii "  options
+{	Z9_ = ""// no comment"" Foo
+= ""\n""
     // c
-    )
-@rightPad
-    ( '\x00'  ) char[] _x @calculatedFrom( ""a\\""	) ,repeat int64
-    roots , repeat // trailing space 
-zchar[ 007 // c
-] i64_,
-match	A
-    as o{
-""1""	: Foo ,
-    } , //x
+    i64_
+    = false _x = """ ++ [128512]%N ++ runes_of_ascii """ ; }packet pack { zchar[4294967296 ] float@lengthOf(repeatCount ) , match //x
+Header as len{ [""`tick`"" ] :charz ""it's"": MetaDataX ""it's"" : string_,[	""a	b"" , ""\n"",	1 ]
+    : zchar} , } packet uint8x // trailing space 
+{ @tag(
+007)repeat
+    calculatedFrom  `two words`// c
+,} packet uint8x {
+i16
+    trueish @lengthOf( Z9_) // " ++ [27880; 37322]%N ++ runes_of_ascii "
+, @calculatedFrom(""a\""b""
+    )@lengthOf(u8x ) roots , uint64 chars@lengthOf(tag )//
+`` , }
+")).
+Eval vm_compute in ("<<<M3586>>>" ++ check (runes_of_ascii "
+// top
+		packet 	 // c0a
+	// c0b
+B	// c1
+      {  // c2a
+  // c2b
+  u8 	 // c3
+		a  // c4a
+  // c4b
+	,
+    // c5
+}	// c6
+
+  root
+    packet
+P 	 // c9
+    {  u8 	 // c11
+	K // c12a
+  // c12b
+	,	// c13
+    match 
+// c14
+  K  
+  // c15
+    as
+
+Body 	 // c17a
+	  // c17b
+  { 
+// c18
+	1 
+    // c19
+  :B  // c21
+  	,}
+    // c23
+		,  u16 // c25
+	  L	@lengthOf(	// c27a
+      // c27b
+      Body  // c28a
+
+  // c28b
+	)	// c29
+  ,  // c30a
+	// c30b
+	}	// c31a
+	// c31b
+")).
+Eval vm_compute in ("<<<M4340>>>" ++ check (runes_of_ascii "root packet i64_ {
+    packetx {
+        string zchar @calculatedFrom(""`tick`"") `
+                `,
+        zchar[1] metadata `doc`,
+        Foo @calculatedFrom(""CRC32""),
+    },
+    char[] roots `crlf
+        line`,
+    @calculatedFrom(""it's"")
+    char rootA,
+    @tag(7)
+    charz o `it's`,// a // b
+    char[007] msg_type @lengthOf(x_y_z),
+    repeat zchar[007] repeatCount `say ""hi""`,
+    match i64_ as rootA {
+        [""abc""] : T,
+    },
+    repeat chars,
 }")).
-Eval vm_compute in ("<<<M1583>>>" ++ check (runes_of_ascii "root packet Foo // " ++ [128512]%N ++ runes_of_ascii " emoji
+Eval vm_compute in ("<<<M1355>>>" ++ check (runes_of_ascii "
+MetaData asx// @lengthOf(
+{
+// " ++ [27880; 37322]%N ++ runes_of_ascii "
+// `tick` ""quote"" 'q'
+string roots
+    `line1
+line2` ,}
+    // `tick` ""quote"" 'q'
+    packet a1  {  repeat x
+`" ++ [28040; 24687; 31867; 22411]%N ++ runes_of_ascii "`,}
+    MetaData pack {int rootA	`" ++ [233]%N ++ runes_of_ascii "`	,
+repeatCount
+    i8i8 , char[]
+    a1
+    , int16/// triple
+zchar // a // b
+, int32
+    falsey ,/// triple
+a1
+    matchKey `it's` , }
+MetaData  u128 { int8 A
+`" ++ [28040; 24687; 31867; 22411]%N ++ runes_of_ascii "`
+,
+} options{ rootA =	uint8	; u8x	=
+'0'
+    //
+    ;o
+= int32  ; MetaDataX = """ ++ [128512]%N ++ runes_of_ascii """ ; Pad = true }
+")).
+Eval vm_compute in ("<<<M439>>>" ++ check (runes_of_ascii "MetaData
+/// triple
+//	t
+matchKey {
+    MetaDataX
+trueish `say ""hi""` , char[] stringy `u8 x,` ,
+}
+    /// triple
+    packet
+zchar {
+u64 a1
+,
+@leftPad  (
+    )match zchar as MetaDataX//
+{
+//
+// `tick` ""quote"" 'q'
+""a\\"" : x_y_z} , @leftPad ('\x00'
+)
+match lengthOf as _x
+    // " ++ [27880; 37322]%N ++ runes_of_ascii "
+    {
+7:  leftPad , } ,//
+@calculatedFrom(""" ++ [28040; 24687]%N ++ runes_of_ascii """ )	@lengthOf(
+crc
+)
+//x
+//
+match BodyLength as calculatedFrom  {
+255: x_y_z ""// no comment""
+:T }, }
+")).
+Eval vm_compute in ("<<<M595>>>" ++ check (runes_of_ascii "root packet
+    body { // `tick` ""quote"" 'q'
+x_y_z @calculatedFrom(
+""\" ++ [233]%N ++ runes_of_ascii """  ) `" ++ [233]%N ++ runes_of_ascii "` ,
+@lengthOf( stringy ) asx `crlf
+line` , @calculatedFrom(""{,}"")	float { repeat chars `doc` ,
+} , }root
+    // packet A { u8 x, }
+    packet trueish // " ++ [27880; 37322]%N ++ runes_of_ascii "
+{ uint8x `tab	here`
+    , @calculatedFrom(
+    ""it's"" )
+    u16 trueish `{ , }`
+, @lengthOf( // " ++ [128512]%N ++ runes_of_ascii " emoji
+stringy )
+i8i8{ u16 MetaDataX``, string matchKey ,
+    //	t
+    }  ,}
+")).
+Eval vm_compute in ("<<<M3938>>>" ++ check (runes_of_ascii "options {
+    chars = '\x00'
+    metadata = true;
+    x_y_z = string;
+    // trailing space 
+}
+
+packet Logon {
+    repeat char[10] packetx `" ++ [28040; 24687; 31867; 22411]%N ++ runes_of_ascii "`,
+}
+
+options {
+    stringy = 4294967296
+    As = ""x y"";
+    f32a = ' ';
+}
+
+packet chars {
+    @calculatedFrom(""x y"")
+    packetx @calculatedFrom(""" ++ [128512]%N ++ runes_of_ascii """),
+    i8i8 @lengthOf(u),
+    @rightPad(' ')
+    @lengthOf(msg_type)
+    @lengthOf(Z9_)
+    T stringy,
+}")).
+Eval vm_compute in ("<<<M1224>>>" ++ check (runes_of_ascii "root packet stringy{ repeat stringy
+`
+` , @rightPad
+(
+    '\x00')	repeat A `tab	here`
+    ,@tag( 0)
+@rightPad
+( ) repeat As
+u128 `tab	here`	,@calculatedFrom( ""CRC32"" ) string_	{ repeat i8 o  ,
+zchar[ 42	]	stringy `doc`
+,  char[]
+int
+    ,match trueish as zchar  { [
+//
+//	t
+""" ++ [233]%N ++ runes_of_ascii "t" ++ [233]%N ++ runes_of_ascii """,
+    3] :
+asx,}	, } ,
+    }
+    options { roots =	65535  ;
+    } MetaData float {  Foo f32a ,}
+")).
+Eval vm_compute in ("<<<M347>>>" ++ check (runes_of_ascii "MetaData packetx {
+// `tick` ""quote"" 'q'
+// `tick` ""quote"" 'q'
+float64 _x , msg_type calculatedFrom // a // b
+`say ""hi""`  , metadata Foo `a\` ,falsey asx `two words` , char[	4294967296 ]calculatedFrom ,
+int32 options1 , }options {
+crc
+    =
+    '\x00' ;
+charz = ""it's"" ; BodyLength =
+    ""\" ++ [233]%N ++ runes_of_ascii """ body =//
+int8
+    ; }
+MetaData len{
+    char[ 42 ] Logon`tab	here`,	}")).
+Eval vm_compute in ("<<<M1157>>>" ++ check (runes_of_ascii "MetaData
+rootA
+{ }
+// a // b
+// c
+root
+    packet i8i8 { roots	@lengthOf(
+    // trailing space 
+    metadata )
+`a\` , @leftPad( ) @calculatedFrom( """ ++ [233]%N ++ runes_of_ascii "t" ++ [233]%N ++ runes_of_ascii """ ) @rightPad (
+) repeat	Packet// " ++ [27880; 37322]%N ++ runes_of_ascii "
+, @lengthOf(
+falsey) f64 x
+    , len @calculatedFrom( ""// no comment"" ) ,	@leftPad (  )
+    Pad { int64
+    stringy // a // b
+``, i8 charz, Header x  , }	, }
+")).
+Eval vm_compute in ("<<<M45>>>" ++ check (runes_of_ascii "
+packet stringy
+{	falsey @lengthOf( MetaDataX )`crlf
+line`
+,match tag as uint8x{
+""a\""b"" : charz
+    , 00 :
+    repeatCount , 10
+: Header
+    ""a	b""
+    /// triple
+    : Pad
+,65535
+    :
+metadata
+    ,
+},
+    @calculatedFrom( ""a\""b""
+    )
+    //x
+    char[
+    255 ]falsey , x_y_z
+@calculatedFrom(  ""packet"")
+    `tab	here` , }
+")).
+Eval vm_compute in ("<<<M4289>>>" ++ check (runes_of_ascii "
+
+  packet
+calculatedFrom	{ Logon o,
+	}	// packet A { u8 x, }
+	MetaData
+As 
+    // a // b
+  // " ++ [27880; 37322]%N ++ runes_of_ascii "
+{uint32 repeatCount `{ , }`  ,zchar[
+
+/// triple
+    00
+
+]
+    T `say ""hi""` ,	zchar[ 1 
+] float `two words`
+, char[
+42	]
+
+    stringy
+`// not a comment`
+	, zchar[  007]
+	chars	`tab	here`
+
+,
+
+    int16 
+stringy, 
+}
+
+")).
+Eval vm_compute in ("<<<M4333>>>" ++ check (runes_of_ascii "root
+	packet
+
+    Foo// " ++ [128512]%N ++ runes_of_ascii " emoji
+    {
+    }
+options	{ 
+  // a // b
+  tag  // `tick` ""quote"" 'q'
+    =//	t
+""""
+    ;
+u8x  =	zchar[  0
+
+    ] }MetaData
+
+int
+
+    {
+zchar[	10 ]lengthOf
+	``
+,i64 u8x,  MetaDataX 
+pack// `tick` ""quote"" 'q'
+`crlf
+line` ,Logon charz
+	`crlf
+line`
+
+, 
+    // a // b
+    	}
+")).
+Eval vm_compute in ("<<<M1585>>>" ++ check (runes_of_ascii "root packet Foo // " ++ [128512]%N ++ runes_of_ascii " emoji
 { } options {
     // a // b
     tag // `tick` ""quote"" 'q'
@@ -1861,646 +1874,760 @@ MetaData
 lengthOf	`` , i64 u8x`// not a comment` ,MetaDataX pack// `tick` ""quote"" 'q'
 `crlf
 line`
-,")).
-Eval vm_compute in ("<<<M286>>>" ++ check (runes_of_ascii "options{
-} options {
-    } root packet uint8x { @leftPad ('\x00'
-    )
-    match uint8x as	pack {[ ""\n"" ,
-""a	b""
+, Logon charz charz `crlf
+line`
     ,
-10,
-    // " ++ [27880; 37322]%N ++ runes_of_ascii "
-    255 ,
-// " ++ [27880; 37322]%N ++ runes_of_ascii "
-//	t
-""a	b"" , //x
-"""" ] // " ++ [27880; 37322]%N ++ runes_of_ascii "
-:
-    repeatCount
-    , // c
-}
-    ,// " ++ [128512]%N ++ runes_of_ascii " emoji
-} 	 ")).
-Eval vm_compute in ("<<<M3970>>>" ++ check (runes_of_ascii "packet BodyLength {
-    //	t
-    x f32a `line1
+    // a // b
+    }
+")).
+Eval vm_compute in ("<<<M4061>>>" ++ check (runes_of_ascii "root packet string_ {
+    zchar[1] stringy @lengthOf(charz) `u8 x,`,
+    repeat falsey {
+        i8 u128 @lengthOf(u128) `line1
         line2`,
-    @calculatedFrom(""a\\"")
-    @lengthOf(repeatCount)
-    i8 Header `{ , }`,
-    float64 leftPad @calculatedFrom(""\" ++ [233]%N ++ runes_of_ascii """),
-    @calculatedFrom(""1"")
-    uint64 o,
-}")).
-Eval vm_compute in ("<<<M3936>>>" ++ check (runes_of_ascii "options {
-    matchKey = 007;
-    pack = false;// `tick` ""quote"" 'q'
-    float = int8
-    options1 = char[]
-    x_y_z = """";
-}
-
-options {
-    Header = float64;
-    pack = float32;
-    string_ = char[42]
-    Logon = 00;
-}")).
-Eval vm_compute in ("<<<M2341>>>" ++ check (runes_of_ascii "MetaData Packet { }packet	asx  { @lengthOf( asx) falsey`crlf
-line`
-,
-    }
-    packet x	{uint32// @lengthOf(
-rootA	,u32 options1 `say ""hi""` , @tag( 7
-    ) )// packet A { u8 x, }
-msg_type @lengthOf(
-stringy	)	, }
-
-")).
-Eval vm_compute in ("<<<M2242>>>" ++ check (runes_of_ascii "MetaData Packet { }packet	asx  @lengthOf( { asx) falsey`crlf
-line`
-,
-    }
-    packet x	{uint32// @lengthOf(
-rootA	,u32 options1 `say ""hi""` , @tag( 7
-    )// packet A { u8 x, }
-msg_type @lengthOf(
-stringy	)	, }
-
-")).
-Eval vm_compute in ("<<<M2240>>>" ++ check (runes_of_ascii "MetaData Packet { }packet	asx   @lengthOf( asx) falsey`crlf
-line`
-,
-    }
-    packet x	{uint32// @lengthOf(
-rootA	,u32 options1 `say ""hi""` , @tag( 7
-    )// packet A { u8 x, }
-msg_type @lengthOf(
-stringy	)	, }
-
-")).
-Eval vm_compute in ("<<<M2373>>>" ++ check (runes_of_ascii "MetaData Packet { }packet	asx  { @lengthOf( asx) falsey`crlf
-line`
-,
-    }
-    packet x	{uint32// @lengthOf(
-rootA	,u32 options1 `say ""hi""` , @tag( 7
-    )// packet A { u8 x, }
-msg_type @lengthOf(
-stringy	)	,")).
-Eval vm_compute in ("<<<M2345>>>" ++ check (runes_of_ascii "MetaData Packet { }packet	asx  { @lengthOf( asx) falsey`crlf
-line`
-,
-    }
-    packet x	{uint32// @lengthOf(
-rootA	,u32 options1 `say ""hi""` , @tag( 7
-    )// packet A { u8 x, }
- @lengthOf(
-stringy	)	, }
-
-")).
-Eval vm_compute in ("<<<M4329>>>" ++ check (runes_of_ascii "// c
-
-	options {
-
-lengthOf
-
-=
-	false Logon
-=
-
-false
-	;
-} MetaData lengthOf{ 	 // " ++ [128512]%N ++ runes_of_ascii " emoji
-	  float32
-i8i8
-,} root 	 // `tick` ""quote"" 'q'
-
-packet 
-roots
-
-{ zchar[	7
-]f32a
-	// trailing space 
-	,}
-")).
-Eval vm_compute in ("<<<M4498>>>" ++ check (runes_of_ascii "options {
-    Z9_ = ""\n"";
-    calculatedFrom = ""packet"";
-    zchar = ' ';
-}
-
-MetaData asx {
-    repeatCount uint8x `two words`,
-    a1 A `u8 x,`,
-    Packet Z9_ `crlf
-    line`,
-}
-
-options {
-}")).
-Eval vm_compute in ("<<<M3675>>>" ++ check (runes_of_ascii "root packet i64_ {
-    @calculatedFrom(""\n"")
-    repeat uint32 BodyLength,
-    @leftPad(' ')
-    i32 falsey @lengthOf(i64_) `line1
-    line2`,
-    @rightPad()
-    repeat int64 int `" ++ [233]%N ++ runes_of_ascii "`,
-}")).
-Eval vm_compute in ("<<<M1098>>>" ++ check (runes_of_ascii "packet falsey {
-    @leftPad () // packet A { u8 x, }
-zchar[ 007
-    ] i8i8 @calculatedFrom( """ ++ [28040; 24687]%N ++ runes_of_ascii """),a1 {float32
-Foo @lengthOf( u8x
-) ,
-},chars , repeat char[] roots `" ++ [28040; 24687; 31867; 22411]%N ++ runes_of_ascii "` ,}
-")).
-Eval vm_compute in ("<<<M804>>>" ++ check (runes_of_ascii "options
-{ calculatedFrom=
-    // packet A { u8 x, }
-    """ ++ [28040; 24687]%N ++ runes_of_ascii """ ;
-    u = false BodyLength=
-    // `tick` ""quote"" 'q'
-    65535
-; msg_type  = 0
-    lengthOf= true
-    ;}
-")).
-Eval vm_compute in ("<<<M4479>>>" ++ check (runes_of_ascii "
-packet
-
-A	{
-
-match
-
-    k  as n
-	{
-
-    [1 
-, 22
-    ,
-007
-    ,4
-    , 
-5 , 66
-	, 
-7,
-
-    8	,
-
-9, 
-10
-
-    , 11
-
-,
-
-12 ]: B  2
-
-    :
-    C } , 
-}
-
-")).
-Eval vm_compute in ("<<<M3972>>>" ++ check (runes_of_ascii "packet A {
-    Inner {
-        match k as n {
-            [
-                1, 22, 007, 4, 5,
-                66, 7
-            ] : B,
-        },
+        float @calculatedFrom(""a	b""),
+        chars,
+        char[0] Header,
     },
+    i8i8 `// not a comment`,//
+}
+
+packet T {
+    repeat lengthOf,
 }")).
-Eval vm_compute in ("<<<M3703>>>" ++ check (runes_of_ascii "  packet
-
-    A{
-	match
-k
-    as
-	n{ 
-[ ""a""
-
-    , 22
-	, 
-""c c"",4,
-    ""e""
-
-, 66,
-""g"" 
-,
-8 ,
-
-    ""i"" , 10	, ""k"" ]  :B	2
-: C
-
+Eval vm_compute in ("<<<M1501>>>" ++ check (runes_of_ascii "root packet Foo // " ++ [128512]%N ++ runes_of_ascii " emoji
+{ } options {
+    // a // b
+    tag // `tick` ""quote"" 'q'
+= //	t
+""""
+    ; u8x = zchar[0  ] }
+MetaData
+    { int zchar[ 10]
+lengthOf	`` , i64 u8x`// not a comment` ,MetaDataX pack// `tick` ""quote"" 'q'
+`crlf
+line`
+, Logon charz `crlf
+line`
+    ,
+    // a // b
     }
+")).
+Eval vm_compute in ("<<<M1516>>>" ++ check (runes_of_ascii "root packet Foo // " ++ [128512]%N ++ runes_of_ascii " emoji
+{ } options {
+    // a // b
+    tag // `tick` ""quote"" 'q'
+= //	t
+""""
+    ; u8x = zchar[0  ] }
+MetaData
+    int {zchar[ ]10
+lengthOf	`` , i64 u8x`// not a comment` ,MetaDataX pack// `tick` ""quote"" 'q'
+`crlf
+line`
+, Logon charz `crlf
+line`
+    ,
+    // a // b
+    }
+")).
+Eval vm_compute in ("<<<M1504>>>" ++ check (runes_of_ascii "root packet Foo // " ++ [128512]%N ++ runes_of_ascii " emoji
+{ } options {
+    // a // b
+    tag // `tick` ""quote"" 'q'
+= //	t
+""""
+    ; u8x = zchar[0  ] }
+MetaData
+    int zchar[ 10]
+lengthOf	`` , i64 u8x`// not a comment` ,MetaDataX pack// `tick` ""quote"" 'q'
+`crlf
+line`
+, Logon charz `crlf
+line`
+    ,
+    // a // b
+    }
+")).
+Eval vm_compute in ("<<<M1410>>>" ++ check (runes_of_ascii " packet Foo // " ++ [128512]%N ++ runes_of_ascii " emoji
+{ } options {
+    // a // b
+    tag // `tick` ""quote"" 'q'
+= //	t
+""""
+    ; u8x = zchar[0  ] }
+MetaData
+    int {zchar[ 10]
+lengthOf	`` , i64 u8x`// not a comment` ,MetaDataX pack// `tick` ""quote"" 'q'
+`crlf
+line`
+, Logon charz `crlf
+line`
+    ,
+    // a // b
+    }
+")).
+Eval vm_compute in ("<<<M1559>>>" ++ check (runes_of_ascii "root packet Foo // " ++ [128512]%N ++ runes_of_ascii " emoji
+{ } options {
+    // a // b
+    tag // `tick` ""quote"" 'q'
+= //	t
+""""
+    ; u8x = zchar[0  ] }
+MetaData
+    int {zchar[ 10]
+lengthOf	`` , i64 u8x`// not a comment` , pack// `tick` ""quote"" 'q'
+`crlf
+line`
+, Logon charz `crlf
+line`
+    ,
+    // a // b
+    }
+")).
+Eval vm_compute in ("<<<M4123>>>" ++ check (runes_of_ascii "packet stringy {
+    @lengthOf(Packet)
+    lengthOf @calculatedFrom(""it's""),
+}
 
+MetaData x_y_z {
+    asx rootA `it's`,
+    float32 trueish,
+    o Packet,
+}
+
+options {
+    leftPad = true;
+    len = 7;
+    Pad = 42;
+    chars = 65535;
+    A = 4294967296
+}
+
+MetaData int {
+}")).
+Eval vm_compute in ("<<<M274>>>" ++ check (runes_of_ascii "packet falsey
+    { //	t
+_x { T@calculatedFrom(
+""" ++ [28040; 24687]%N ++ runes_of_ascii """
+),int64 roots , match
+    float as a1 { 1//	t
+:falsey  , [
+    // c
+    ""CRC32""  ,""a\""b"" ,
+    255 , 65535 , 42	,0123456789]
+:
+pack
+, }, } , pack
+    { falsey//x
+, } , packetx // packet A { u8 x, }
 , }
 ")).
-Eval vm_compute in ("<<<M3910>>>" ++ check (runes_of_ascii "packet A {
-    Inner {
-        u8 x `a
-        
-        b`,
-        Deep {
-            u8 y `a
-            
-            b`,
-        },
-    },
-}")).
-Eval vm_compute in ("<<<M1683>>>" ++ check (runes_of_ascii "root packet /// triple
-rootA {	i32
-MetaDataX@calculatedFrom( ""CRC32"" ) `line1
-line2` , } MetaData MetaData BodyLength {
-u8
-rootA, } // c")).
-Eval vm_compute in ("<<<M1801>>>" ++ check (runes_of_ascii "packet
-    Pad // a // b
-{ i8i8 @calculatedFrom( @calculatedFrom( ""a	b"") `u8 x,` ,
-} options{ float// " ++ [128512]%N ++ runes_of_ascii " emoji
-= f64 i64_
-=//	t
-00 }
+Eval vm_compute in ("<<<M4184>>>" ++ check (runes_of_ascii "packet
+
+    zchar
+
+    // @lengthOf(
+  {
+    @tag(
+
+    255
+)	match
+	u128  as
+	roots  {
+0123456789
+
+://x
+u }
+,zchar[ 
+4294967296	]
+    charz // " ++ [128512]%N ++ runes_of_ascii " emoji
+
+  `tab	here`, 	 // " ++ [27880; 37322]%N ++ runes_of_ascii "
+match uint8x
+
+    as 
+leftPad{
+
+10
+:
+
+    _x  //x
+  	,
+    }
+
+,	}")).
+Eval vm_compute in ("<<<M82>>>" ++ check (runes_of_ascii "packet
+x { char matchKey
+    @lengthOf( x_y_z ) //
+, }packet	trueish  {
+    @tag( 255
+    )
+char calculatedFrom @lengthOf( Header ) , }
+    MetaData options1
+    // trailing space 
+    { }
+packet MetaDataX {
+    }
+    packet trueish{	}")).
+Eval vm_compute in ("<<<M3334>>>" ++ check (runes_of_ascii "// top
+packet // c0
+calculatedFrom // c1
+{ // c2
+@tag( // c3
+4294967296 // c4
+) // c5
+u // c6
+msg_type // c7
+, // c8
+char[ // c9
+3 // c10
+] // c11
+crc // c12
+@lengthOf( // c13
+len // c14
+) // c15
+`u8 x,` // c16
+, // c17
+} // c18
 ")).
-Eval vm_compute in ("<<<M1725>>>" ++ check (runes_of_ascii "'' root packet /// triple
-rootA {	i32
-MetaDataX@calculatedFrom( ""CRC32"" ) `line1
-line2` , } MetaData BodyLength {
-u8
-rootA, } // c")).
-Eval vm_compute in ("<<<M3701>>>" ++ check (runes_of_ascii "
+Eval vm_compute in ("<<<M1246>>>" ++ check (runes_of_ascii "root
+    //
+    packet Foo {float32 Logon `doc` , } MetaData x_y_z
+    // `tick` ""quote"" 'q'
+    { Header
+Z9_ `line1
+line2`  , o crc ,// " ++ [27880; 37322]%N ++ runes_of_ascii "
+string //x
+Header , _x packetx`say ""hi""`,} packet stringy {
+uint8 i64_ ,
+    }
 
-  packet calculatedFrom{	// c
-    	@tag( 
-4294967296
-)u	msg_type  , 
-char[
-
-3 ]
-	crc
-
-    @lengthOf( len
-    ) `u8 x,` ,  }
 ")).
-Eval vm_compute in ("<<<M1672>>>" ++ check (runes_of_ascii "root packet /// triple
-rootA {	i32
-MetaDataX@calculatedFrom( ""CRC32"" ) `line1
-line2`  } MetaData BodyLength {
-u8
-rootA, } // c")).
-Eval vm_compute in ("<<<M1716>>>" ++ check (runes_of_ascii "root packet /// triple
-rootA {	i32
-MetaDataX@calculatedFrom( ""CRC32"" ) `line1
-line2` , } MetaData BodyLength {
-u8
-rootA, } /")).
-Eval vm_compute in ("<<<M4281>>>" ++ check (runes_of_ascii "
-packet	calculatedFrom	{ 
-@tag(
-4294967296)  u
-
-    msg_type ,
-        // c
-		char[3] crc 
-@lengthOf(	len
-)`u8 x,` 
-, 
-}")).
-Eval vm_compute in ("<<<M1711>>>" ++ check (runes_of_ascii "root packet /// triple
-rootA {	i32
-MetaDataX@calculatedFrom( ""CRC32"" ) `line1
-line2` , } MetaData BodyLength {
-u8
-rootA")).
-Eval vm_compute in ("<<<M4168>>>" ++ check (runes_of_ascii "
-packet
-calculatedFrom {	@tag(
-	4294967296 
-
-// c
-      )
-	u	msg_type
-
+Eval vm_compute in ("<<<M2382>>>" ++ check (runes_of_ascii "MetaData Packet { }packet	asx  { @lengthOf( asx) falsey`crlf
+line`
 ,
-	char[ 3] 
-crc
-
-@lengthOf(len  )	`u8 x,`
-,}
+    }
+    pac'1'ket x	{uint32// @lengthOf(
+rootA	,u32 options1 `say ""hi""` , @tag( 7
+    )// packet A { u8 x, }
+msg_type @lengthOf(
+stringy	)	, }
 
 ")).
-Eval vm_compute in ("<<<M1817>>>" ++ check (runes_of_ascii "packet
-    Pad // a // b
-{ i8i8 @calculatedFrom( ""a	b"") , `u8 x,`
-} options{ float// " ++ [128512]%N ++ runes_of_ascii " emoji
-= f64 i64_
-=//	t
-00 }
-")).
-Eval vm_compute in ("<<<M3460>>>" ++ check (runes_of_ascii "// top
-root
-    // c0
-packet // c1a
-  // c1b
-P // c2a
-  // c2b
-{ // c3a
-  // c3b
-string // c4
-s , // c6
-}
-    // c7
-")).
-Eval vm_compute in ("<<<M4307>>>" ++ check (runes_of_ascii "packet
-
-Logon {	@tag( 42
-
-    ) @rightPad  ( ' ' 	 // c
-	)
-@leftPad
-()  repeat
-    trueish
-{
-string T
-,	}
-, 
-}
-")).
-Eval vm_compute in ("<<<M3951>>>" ++ check (runes_of_ascii "packet A {
-    B b `a
-        b
-      c`,
-    B `a
-        b
-      c`,
-    repeat B bs `a
-        b
-      c`,
-}")).
-Eval vm_compute in ("<<<M3416>>>" ++ check (runes_of_ascii "// top
-root
-    // c0
-packet P {
-    // c3
-char // c4
-c // c5
+Eval vm_compute in ("<<<M2380>>>" ++ check (runes_of_ascii "MetaData Packet { }packet	asx  { @lengthOf( asx) falsey`crlf
+line`
 ,
-    // c6
-u8 // c7
-x // c8
-, // c9
-} // c10
+    }
+    packet x	{uint32// @lengthOf(
+rootA	,u32 options1 `say ""hi""` `, @tag( 7
+    )// packet A { u8 x, }
+msg_type @lengthOf(
+stringy	)	, }
+
 ")).
-Eval vm_compute in ("<<<M1473>>>" ++ check (runes_of_ascii "root packet Foo // " ++ [128512]%N ++ runes_of_ascii " emoji
-{ } options {
+Eval vm_compute in ("<<<M2317>>>" ++ check (runes_of_ascii "MetaData Packet { }packet	asx  { @lengthOf( asx) falsey`crlf
+line`
+,
+    }
+    packet x	{uint32// @lengthOf(
+rootA	,u32 `say ""hi""` options1 , @tag( 7
+    )// packet A { u8 x, }
+msg_type @lengthOf(
+stringy	)	, }
+
+")).
+Eval vm_compute in ("<<<M2370>>>" ++ check (runes_of_ascii "MetaData Packet { }packet	asx  { @lengthOf( asx) falsey`crlf
+line`
+,
+    }
+    packet x	{uint32// @lengthOf(
+rootA	,u32 options1 `say ""hi""` , @tag( 7
+    )// packet A { u8 x, }
+msg_type @lengthOf(
+stringy	)	, 
+
+")).
+Eval vm_compute in ("<<<M2295>>>" ++ check (runes_of_ascii "MetaData Packet { }packet	asx  { @lengthOf( asx) falsey`crlf
+line`
+,
+    }
+    packet x	{// @lengthOf(
+rootA	,u32 options1 `say ""hi""` , @tag( 7
+    )// packet A { u8 x, }
+msg_type @lengthOf(
+stringy	)	, }
+
+")).
+Eval vm_compute in ("<<<M221>>>" ++ check (runes_of_ascii "options{ len = // " ++ [27880; 37322]%N ++ runes_of_ascii "
+true
+    ;
+MetaDataX = zchar[ 00//
+] lengthOf =  '0'; Pad	=""packet""  ; x_y_z
     // a // b
-    tag // `tick` ""quote"" 'q'
-= //	t
-""""
-    ; u8x")).
-Eval vm_compute in ("<<<M3352>>>" ++ check (runes_of_ascii "packet calculatedFrom { @tag( 4294967296 ) u
-// c
-msg_type , char[ 3 ] crc @lengthOf( len ) `u8 x,` , }")).
-Eval vm_compute in ("<<<M2973>>>" ++ check (runes_of_ascii "packet A {
+    = ""a\""b""; } packet calculatedFrom{
+repeat
+matchKey // packet A { u8 x, }
+Foo
+,
+    }
+")).
+Eval vm_compute in ("<<<M3428>>>" ++ check (runes_of_ascii "packet Inner { u8 a
+    // c4
+,
+    // c5
+}
+    // c6
+root // c7a
+  // c7b
+packet // c8a
+  // c8b
+P // c9a
+  // c9b
+{
+    // c10
+repeat Inner items ,
+    // c14
+u8 // c15
+x
+    // c16
+, // c17
+} ")).
+Eval vm_compute in ("<<<M1286>>>" ++ check (runes_of_ascii "root packet
+BodyLength { } options
+    { A = true ;
+    //	t
+    Packet =
+    i32 A =//x
+char[] }
+    packet
+    Z9_ { }
+root packet f32a
+{
+    //x
+    chars
+    // a // b
+    float ,	}
+")).
+Eval vm_compute in ("<<<M911>>>" ++ check (runes_of_ascii "MetaData leftPad	{ char[] x_y_z `say ""hi""` , }  options { string_
+    // " ++ [128512]%N ++ runes_of_ascii " emoji
+    = ""CRC32""
+} options {_x = ""1"" ;Header= f64; }packet lengthOf
+{ }	packet x_y_z
+{
+//x
+// " ++ [27880; 37322]%N ++ runes_of_ascii "
+} //")).
+Eval vm_compute in ("<<<M605>>>" ++ check (runes_of_ascii "packet lengthOf { @leftPad
+('\x00'
+    ) char[
+4294967296]f32a , repeat char[] zchar ,
+_x,// " ++ [27880; 37322]%N ++ runes_of_ascii "
+leftPad zchar ,	A,	char[
+// `tick` ""quote"" 'q'
+// a // b
+3]
+u ,T `it's`	,}")).
+Eval vm_compute in ("<<<M370>>>" ++ check (runes_of_ascii "packet
+    rootA // packet A { u8 x, }
+{ tag
+`u8 x,`
+, char[]	o	,
+    i8i8	@lengthOf(
+    // @lengthOf(
+    stringy ) `// not a comment`
+    ,
+    // " ++ [128512]%N ++ runes_of_ascii " emoji
+    }
+")).
+Eval vm_compute in ("<<<M602>>>" ++ check (runes_of_ascii "MetaData len{ uint16
+    packetx
+,
+i64 Header , f64 x_y_z`two words`, // c
+MetaDataX
+Packet ,
+trueish int ,int32
+    trueish ,
+    // " ++ [27880; 37322]%N ++ runes_of_ascii "
+    }
+packet u8x {}
+")).
+Eval vm_compute in ("<<<M1144>>>" ++ check (runes_of_ascii "packet f32a {
+@calculatedFrom(	""\" ++ [233]%N ++ runes_of_ascii """ )@calculatedFrom(""" ++ [128512]%N ++ runes_of_ascii """ )
+@lengthOf( int ) u8x @calculatedFrom( ""\" ++ [233]%N ++ runes_of_ascii """),
+float32
+    leftPad`doc` ,
+crc MetaDataX `" ++ [233]%N ++ runes_of_ascii "`, }")).
+Eval vm_compute in ("<<<M4109>>>" ++ check (runes_of_ascii "root packet stringy {
+    @tag(7)
+    @tag(1)
+    @rightPad('\x00')
+    Foo x `crlf
+        line`,
+    @calculatedFrom(""a	b"")
+    roots `it's`,
+}")).
+Eval vm_compute in ("<<<M877>>>" ++ check (runes_of_ascii "MetaData float {i64_ Z9_`tab	here` ,
+    pack// " ++ [27880; 37322]%N ++ runes_of_ascii "
+falsey, uint8x float ,// c
+zchar[ 4294967296
+] x_y_z , int16 chars`" ++ [233]%N ++ runes_of_ascii "`,
+x_y_z stringy , }")).
+Eval vm_compute in ("<<<M3419>>>" ++ check (runes_of_ascii "// top
+root // c0
+packet P
+    // c2
+{ // c3
+repeat
+    // c4
+char cs
+    // c6
+, u8 x // c9a
+  // c9b
+, // c10a
+  // c10b
+}
+    // c11
+")).
+Eval vm_compute in ("<<<M4364>>>" ++ check (runes_of_ascii "
+MetaData
+	u128
+	{  char[ 255
+
+]
+	_x
+	`{ , }`
+, string leftPad
+
+,u8 A
+    ,	zchar[ 0123456789 ] Foo
+
+    , char[] 
+As `{ , }` ,}
+")).
+Eval vm_compute in ("<<<M1713>>>" ++ check (runes_of_ascii "root packet /// triple
+rootA {	i32
+MetaDataX@calculatedFrom( ""CRC32"" ) `line1
+line2` , } MetaData BodyLength {
+u8
+rootA, } } // c")).
+Eval vm_compute in ("<<<M1684>>>" ++ check (runes_of_ascii "root packet /// triple
+rootA {	i32
+MetaDataX@calculatedFrom( ""CRC32"" ) `line1
+line2` , } BodyLength MetaData {
+u8
+rootA, } // c")).
+Eval vm_compute in ("<<<M4252>>>" ++ check (runes_of_ascii "options { BodyLength
+=
+    '\x00' }
+	options
+{ }options{  Pad =
+
+""\" ++ [233]%N ++ runes_of_ascii """msg_type 
+= uint32
+
+    ;
+	a1 ='0'Foo
+	=' '
+;
+
+    }
+")).
+Eval vm_compute in ("<<<M392>>>" ++ check (runes_of_ascii "root packet
+roots {
+    BodyLength asx
+    ,a1//
+,@tag(7
+    )zchar[
+42 ]
+BodyLength , // " ++ [27880; 37322]%N ++ runes_of_ascii "
+x_y_z `u8 x,`
+,f64 packetx ,}")).
+Eval vm_compute in ("<<<M1737>>>" ++ check (runes_of_ascii "root packet /// triple
+rootA {	i32
+MetaDataX@calculatedFrom( ""CRC32"" ) `line1
+line2` , } MetaData a" ++ [769]%N ++ runes_of_ascii "b {
+u8
+rootA, } // c")).
+Eval vm_compute in ("<<<M1791>>>" ++ check (runes_of_ascii "packet
+    Pad // a // b
+{ { i8i8 @calculatedFrom( ""a	b"") `u8 x,` ,
+} options{ float// " ++ [128512]%N ++ runes_of_ascii " emoji
+= f64 i64_
+=//	t
+00 }
+")).
+Eval vm_compute in ("<<<M2314>>>" ++ check (runes_of_ascii "MetaData Packet { }packet	asx  { @lengthOf( asx) falsey`crlf
+line`
+,
+    }
+    packet x	{uint32// @lengthOf(
+rootA	,")).
+Eval vm_compute in ("<<<M1862>>>" ++ check (runes_of_ascii "packet
+    Pad // a // b
+{ i8i8 @calculatedFrom( ""a	b"") `u8 x,` ,
+} options{ float// " ++ [128512]%N ++ runes_of_ascii " emoji
+= f64 i64_
+00//	t
+= }
+")).
+Eval vm_compute in ("<<<M1667>>>" ++ check (runes_of_ascii "root packet /// triple
+rootA {	i32
+MetaDataX@calculatedFrom( ""CRC32"" )  , } MetaData BodyLength {
+u8
+rootA, } // c")).
+Eval vm_compute in ("<<<M1652>>>" ++ check (runes_of_ascii "root packet /// triple
+rootA {	i32
+MetaDataX ""CRC32"" ) `line1
+line2` , } MetaData BodyLength {
+u8
+rootA, } // c")).
+Eval vm_compute in ("<<<M3588>>>" ++ check (runes_of_ascii "MetaData 
+        // a // b
+//	t
+    rootA
+    {  }
+	options	//
+{
+	tag // `tick` ""quote"" 'q'
+
+  =
+    3 ;
+}")).
+Eval vm_compute in ("<<<M1194>>>" ++ check (runes_of_ascii "//	t
+options
+    { // c
+}MetaData asx
+{float64 x_y_z
+,
+}  options	{// packet A { u8 x, }
+stringy = '0' ;
+}")).
+Eval vm_compute in ("<<<M4036>>>" ++ check (runes_of_ascii "options {
+    // c
+    matchKey = ""a\""b"";
+    a1 = uint16
+    charz = char[]
+    a1 = u8;
+    As = 00;
+}")).
+Eval vm_compute in ("<<<M3359>>>" ++ check (runes_of_ascii "packet calculatedFrom { @tag( 4294967296 ) u msg_type , char[ 3 // c
+] crc @lengthOf( len ) `u8 x,` , }")).
+Eval vm_compute in ("<<<M1800>>>" ++ check (runes_of_ascii "packet
+    Pad // a // b
+{ i8i8  ""a	b"") `u8 x,` ,
+} options{ float// " ++ [128512]%N ++ runes_of_ascii " emoji
+= f64 i64_
+=//	t
+00 }
+")).
+Eval vm_compute in ("<<<M2984>>>" ++ check (runes_of_ascii "packet A {
   match k as n {
-    [""a"", ""bb"", 007, ""d"", ""e"", 66, ""g"", ""h"", 9, ""j""] : B,
+    [1, 22, ""c c"", 4, 5, ""f"", 7, 8, ""i"", 10, 11] : B,
     2 : C
   },
 }")).
-Eval vm_compute in ("<<<M1125>>>" ++ check (runes_of_ascii "
-packet	crc{
-    match // trailing space 
-x_y_z
-    as Z9_{ [ 00 ]:asx }, } root packet x_y_z {}
+Eval vm_compute in ("<<<M6>>>" ++ check (runes_of_ascii "MetaData metadata{
+leftPad i64_ ,
+    // " ++ [128512]%N ++ runes_of_ascii " emoji
+    u8
+    stringy `
+` , char[] trueish , }
 ")).
-Eval vm_compute in ("<<<M4070>>>" ++ check (runes_of_ascii "packet B {
-    u8 a,
-    string s,
-}
-
-root packet P {
-    u16 L @lengthOf(B),
-    B,
-    u8 t,
-}")).
-Eval vm_compute in ("<<<M3234>>>" ++ check (runes_of_ascii "packet Logon { @tag( 42 ) @rightPad ( ' ' ) // c
+Eval vm_compute in ("<<<M3235>>>" ++ check (runes_of_ascii "packet Logon { @tag( 42 ) @rightPad ( ' ' )
+// c
 @leftPad ( ) repeat trueish { string T , } , }")).
-Eval vm_compute in ("<<<M1463>>>" ++ check (runes_of_ascii "root packet Foo // " ++ [128512]%N ++ runes_of_ascii " emoji
-{ } options {
-    // a // b
-    tag // `tick` ""quote"" 'q'
-= //	t
-""""")).
-Eval vm_compute in ("<<<M2299>>>" ++ check (runes_of_ascii "MetaData Packet { }packet	asx  { @lengthOf( asx) falsey`crlf
-line`
-,
-    }
-    packet x	{")).
-Eval vm_compute in ("<<<M3429>>>" ++ check (runes_of_ascii "packet
-
-    Inner {  u8 a
-    , }root
-packet  P
-
-{repeat 
-Inner
-
-items
-    ,
-u8 x , } ")).
-Eval vm_compute in ("<<<M4351>>>" ++ check (runes_of_ascii "MetaData metadata {
-    leftPad i64_,
-    u8 stringy `
-        `,
-    char[] trueish,
-}")).
-Eval vm_compute in ("<<<M1999>>>" ++ check (runes_of_ascii "root
+Eval vm_compute in ("<<<M2035>>>" ++ check (runes_of_ascii "root
 packet crc
-    { f32a @calculatedFrom( """ ++ [233]%N ++ runes_of_ascii "t" ++ [233]%N ++ runes_of_ascii """ )
-    BodyLength, lengthOf `` ,  }")).
-Eval vm_compute in ("<<<M1605>>>" ++ check (runes_of_ascii "root packet Foo // " ++ [128512]%N ++ runes_of_ascii " emoji
-{ } options {
-    // a // b
-    tag // `tick` ""quote"" 'q")).
-Eval vm_compute in ("<<<M3292>>>" ++ check (runes_of_ascii "// c
-packet o { @tag( 42 ) repeat x { char[ 0123456789 ] i64_ , } , } options { }")).
-Eval vm_compute in ("<<<M3325>>>" ++ check (runes_of_ascii "packet o { @tag( 42 ) repeat x { char[ 0123456789 ] i64_ , } ,
-// c
-} options { }")).
-Eval vm_compute in ("<<<M1340>>>" ++ check (runes_of_ascii "//x
-packet calculatedFrom
-{ match trueish as int  { ""it's""
-: float	,}
-,
-    }
-")).
-Eval vm_compute in ("<<<M859>>>" ++ check (runes_of_ascii "
-options // `tick` ""quote"" 'q'
-{ Packet =
-'0' ;
+    { f32a @c@lengthOfalculatedFrom( """ ++ [233]%N ++ runes_of_ascii "t" ++ [233]%N ++ runes_of_ascii """ )
+    `say ""hi""`, lengthOf `` ,  }")).
+Eval vm_compute in ("<<<M339>>>" ++ check (runes_of_ascii "MetaData Z9_ {
+//	t
 // " ++ [27880; 37322]%N ++ runes_of_ascii "
-// " ++ [27880; 37322]%N ++ runes_of_ascii "
-x	=
-    42 ; }
-")).
-Eval vm_compute in ("<<<M2757>>>" ++ check (runes_of_ascii "char @lengthOf( @lengthOf( false string = ( '0' i32 : float32 i64 u64 true")).
-Eval vm_compute in ("<<<M263>>>" ++ check (runes_of_ascii "packet zchar
-{
-    roots
-{ i64 f32a
-    `" ++ [28040; 24687; 31867; 22411]%N ++ runes_of_ascii "`	, float32 zchar , }
-, }")).
-Eval vm_compute in ("<<<M3397>>>" ++ check (runes_of_ascii "MetaData _x // c
-{ zchar[ 4294967296 ] lengthOf `// not a comment` , }")).
-Eval vm_compute in ("<<<M4033>>>" ++ check (runes_of_ascii "
-packet
-//x
-	MetaDataX
-    {
-
-repeat
-rootA 
-`two words`//x
-, //
-  }")).
-Eval vm_compute in ("<<<M2156>>>" ++ check (runes_of_ascii "false
-    // `tick` ""quote"" 'q'
-    packet As { trueish Packet , }
-")).
-Eval vm_compute in ("<<<M3009>>>" ++ check (runes_of_ascii "packet A {
-    B b `a
-b`,
-    B `a
-b`,
-    repeat B bs `a
-b`,
+u128 Foo  , lengthOf uint8x
+    // " ++ [128512]%N ++ runes_of_ascii " emoji
+    `say ""hi""` ,
+    }")).
+Eval vm_compute in ("<<<M2934>>>" ++ check (runes_of_ascii "packet A {
+  match k as n {
+    [""a"", ""bb"", 007, ""d"", ""e"", 66, ""g""] : B,
+    2 : C
+  },
 }")).
-Eval vm_compute in ("<<<M3858>>>" ++ check (runes_of_ascii "  options
-    {leftPad
-	= ""it's"" u8x=
-	1
-
-tag
-    =
-true
-    }
-
-")).
-Eval vm_compute in ("<<<M546>>>" ++ check (runes_of_ascii "options
-// c
-// a // b
-{
-packetx=
-    1 ;
-    body =char[] }")).
-Eval vm_compute in ("<<<M4417>>>" ++ check (runes_of_ascii "  options
-
-    {
+Eval vm_compute in ("<<<M2769>>>" ++ check (runes_of_ascii "`// not a comment` { lengthOf float64 f64 false int32 repeat char[] match u64 @rightPad")).
+Eval vm_compute in ("<<<M3580>>>" ++ check (runes_of_ascii "packet A {
+    Inner {
+        match k as n {
+            [1] : B,
+        },
+    },
+}")).
+Eval vm_compute in ("<<<M1409>>>" ++ check (runes_of_ascii "root packet SimpleMessage {
+	uint16 MsgType `" ++ [28040; 24687; 31867; 22411]%N ++ runes_of_ascii "`,
+	string JsonBody `Json" ++ [23383; 31526; 20018; 28040; 24687; 20307]%N ++ runes_of_ascii "`,
+}")).
+Eval vm_compute in ("<<<M177>>>" ++ check (runes_of_ascii "MetaData Header
+{ trueish u8x , zchar[ 42 ] Packet
+    , char asx	,// @lengthOf(
+}")).
+Eval vm_compute in ("<<<M3302>>>" ++ check (runes_of_ascii "packet o { @tag( 42 // c
+) repeat x { char[ 0123456789 ] i64_ , } , } options { }")).
+Eval vm_compute in ("<<<M3948>>>" ++ check (runes_of_ascii "packet A {
+    match k as n {
+        [1, 22, ""c c""] : B,
+        2 : C,
+    },
+}")).
+Eval vm_compute in ("<<<M3427>>>" ++ check (runes_of_ascii "packet Inner {
+    u8 a,
 }
-	options {
-} // `tick` ""quote"" '<q'
+root packet P {
+    repeat Inner items,
+    u8 x,
+}
+")).
+Eval vm_compute in ("<<<M201>>>" ++ check (runes_of_ascii "packet A { Logon {
+    repeat  char[ 42 ]falsey `a\`  ,repeat int32 T , } ,}")).
+Eval vm_compute in ("<<<M2172>>>" ++ check (runes_of_ascii "root
+    // `tick` ""quote"" 'q'
+    packet As { trueish trueish Packet , }
+")).
+Eval vm_compute in ("<<<M3045>>>" ++ check (runes_of_ascii "packet A {
+    B b `tab
+	x`,
+    B `tab
+	x`,
+    repeat B bs `tab
+	x`,
+}")).
+Eval vm_compute in ("<<<M3393>>>" ++ check (runes_of_ascii "// c
+MetaData _x { zchar[ 4294967296 ] lengthOf `// not a comment` , }")).
+Eval vm_compute in ("<<<M2883>>>" ++ check (runes_of_ascii "packet A {
+  match k as n {
+    [""a"", ""bb"", 007] : B
+    2 : C
+  },
+}")).
+Eval vm_compute in ("<<<M4348>>>" ++ check (runes_of_ascii "  root 
+    // `tick` ""quote"" 'q'
+	packet As
+
+{ 
+Packet
+
+    ,}
+")).
+Eval vm_compute in ("<<<M2835>>>" ++ check (runes_of_ascii "string , ( i16 @lengthOf( uint64 : string char[ repeat true zchar[")).
+Eval vm_compute in ("<<<M2813>>>" ++ check (runes_of_ascii "msg_type ""// no comment"" u8 char[ ] string u64 f64 true } char[]")).
+Eval vm_compute in ("<<<M4051>>>" ++ check (runes_of_ascii "
+
+  // trailing space 
+  packet chars	{string
+
+    len
+, }")).
+Eval vm_compute in ("<<<M366>>>" ++ check (runes_of_ascii "
+packet Logon{ match
+    float as trueish { 3 : int } , }
+
 ")).
 Eval vm_compute in ("<<<M744>>>" ++ check (runes_of_ascii "packet msg_type
     { zchar[00 ]
     _x
 , } // @lengthOf(")).
-Eval vm_compute in ("<<<M1952>>>" ++ check (runes_of_ascii "
+Eval vm_compute in ("<<<M1948>>>" ++ check (runes_of_ascii "
 packet	As { @calculatedFrom(//x
-""{,}""	)lengthOf" ++ [0]%N ++ runes_of_ascii " , } 	 ")).
-Eval vm_compute in ("<<<M1930>>>" ++ check (runes_of_ascii "
+""{,}""	)lengthO" ++ [0]%N ++ runes_of_ascii "f , } 	 ")).
+Eval vm_compute in ("<<<M2180>>>" ++ check (runes_of_ascii "root
+    // `tick` ""quote"" 'q'
+    packet As { trueish")).
+Eval vm_compute in ("<<<M1918>>>" ++ check (runes_of_ascii "
 packet	As { @calculatedFrom(//x
-""{,}""	)lengthOf  } 	 ")).
-Eval vm_compute in ("<<<M529>>>" ++ check (runes_of_ascii "options{
-BodyLength =	""" ++ [128512]%N ++ runes_of_ascii """// `tick` ""quote"" 'q'
-; }
-")).
-Eval vm_compute in ("<<<M399>>>" ++ check (runes_of_ascii "
-packet Pad
-{ uint8 rootA`` ,
-} packet Foo  { }
-")).
-Eval vm_compute in ("<<<M2418>>>" ++ check (runes_of_ascii "MetaData A
-)
-i64
-chars	, } // `tick` ""quote"" 'q'")).
-Eval vm_compute in ("<<<M3943>>>" ++ check (runes_of_ascii "options {
-}
-
-options {
-}// `tick` ""quo''te"" 'q'")).
-Eval vm_compute in ("<<<M2608>>>" ++ check (runes_of_ascii "packet A { match k as n { [1,""a"",2] : B, }, }")).
-Eval vm_compute in ("<<<M2254>>>" ++ check (runes_of_ascii "MetaData Packet { }packet	asx  { @lengthOf(")).
-Eval vm_compute in ("<<<M404>>>" ++ check (runes_of_ascii "options
+:	)lengthOf , } 	 ")).
+Eval vm_compute in ("<<<M520>>>" ++ check (runes_of_ascii "MetaData	float
 {
-    stringy
-=
-true
-    ;  } //")).
-Eval vm_compute in ("<<<M1929>>>" ++ check (runes_of_ascii "
-packet	As { @calculatedFrom(//x
-""{,}""	)")).
-Eval vm_compute in ("<<<M3203>>>" ++ check (runes_of_ascii "MetaData zchar { zchar[ 3 ] Pad
-// c
+    //
+    i8
+T, } // @lengthOf(")).
+Eval vm_compute in ("<<<M3158>>>" ++ check (runes_of_ascii "packet A {} packet B {} MetaData M {} options {}")).
+Eval vm_compute in ("<<<M3901>>>" ++ check (runes_of_ascii "
+MetaData
+    M  {}  // c
+MetaData N {
+	}	// d
+")).
+Eval vm_compute in ("<<<M1758>>>" ++ check (runes_of_ascii "options { }options }  { // `tick` ""quote"" 'q'")).
+Eval vm_compute in ("<<<M734>>>" ++ check (runes_of_ascii "//x
+MetaData u{
+    //
+    int64 x_y_z , }
+")).
+Eval vm_compute in ("<<<M3959>>>" ++ check (runes_of_ascii "
+options
+
+    {
+u8x =  3 
+
+    // c
+	}
+")).
+Eval vm_compute in ("<<<M1755>>>" ++ check (runes_of_ascii "options { }as {  } // `tick` ""quote"" 'q'")).
+Eval vm_compute in ("<<<M3202>>>" ++ check (runes_of_ascii "MetaData zchar { zchar[ 3 ] Pad // c
 , }")).
 Eval vm_compute in ("<<<M1102>>>" ++ check (runes_of_ascii "options {int =//x
 ""\" ++ [233]%N ++ runes_of_ascii """ // " ++ [128512]%N ++ runes_of_ascii " emoji
 } //")).
-Eval vm_compute in ("<<<M2109>>>" ++ check (runes_of_ascii "MetaData x
-// " ++ [128512]%N ++ runes_of_ascii " emoji
-i16 stringy , }")).
-Eval vm_compute in ("<<<M3166>>>" ++ check (runes_of_ascii "options { a = 1; // a
- b = 2 // b
- }")).
-Eval vm_compute in ("<<<M2739>>>" ++ check ([65533; 65533]%N ++ runes_of_ascii "]" ++ [37017; 21]%N ++ runes_of_ascii "&`+" ++ [65533; 65533; 65533]%N ++ runes_of_ascii "lT4" ++ [65533]%N ++ runes_of_ascii "L" ++ [5; 14; 18; 65533; 65533; 17]%N ++ runes_of_ascii """5" ++ [65533]%N ++ runes_of_ascii ":Y" ++ [65533; 65533]%N ++ runes_of_ascii "xTV" ++ [65533; 65533]%N)).
-Eval vm_compute in ("<<<M2584>>>" ++ check (runes_of_ascii "packet A { x @lengthOf(y) `d`, }")).
-Eval vm_compute in ("<<<M78>>>" ++ check (runes_of_ascii "options { zchar=
-    false ; }")).
-Eval vm_compute in ("<<<M3138>>>" ++ check (runes_of_ascii "packet A {
- u8 x `d" ++ [65279]%N ++ runes_of_ascii "`, // c" ++ [65279]%N ++ runes_of_ascii "
+Eval vm_compute in ("<<<M992>>>" ++ check (runes_of_ascii "packet As {	repeat uint64
+Foo
+    , }")).
+Eval vm_compute in ("<<<M3153>>>" ++ check (runes_of_ascii "options { a = 1 // c b = 2; // d}")).
+Eval vm_compute in ("<<<M3013>>>" ++ check (runes_of_ascii "root packet A {
+    u8 x `a
+b`,
 }")).
-Eval vm_compute in ("<<<M2583>>>" ++ check (runes_of_ascii "packet A { x @lengthOf(y), }")).
-Eval vm_compute in ("<<<M3032>>>" ++ check (runes_of_ascii "packet A {
-    u8 x `x
-`,
+Eval vm_compute in ("<<<M2838>>>" ++ check (runes_of_ascii "mHV)h@t@{RF2uS0T]{?I<`nQp>O|RT0-")).
+Eval vm_compute in ("<<<M1368>>>" ++ check (runes_of_ascii "// trailing space 
+options {
 }")).
-Eval vm_compute in ("<<<M4318>>>" ++ check (runes_of_ascii "// " ++ [128512]%N ++ runes_of_ascii " emoji
-packet f32a {
-}")).
-Eval vm_compute in ("<<<M114>>>" ++ check (runes_of_ascii "//	t
-packet
-Logon { } 	 ")).
-Eval vm_compute in ("<<<M3280>>>" ++ check (runes_of_ascii "options { u8x = 3
-// c
-}")).
-Eval vm_compute in ("<<<M227>>>" ++ check (runes_of_ascii " // packet A { u8 x, }")).
-Eval vm_compute in ("<<<M1607>>>" ++ check (runes_of_ascii "root packet Foo // " ++ [65533; 65533]%N)).
-Eval vm_compute in ("<<<M2663>>>" ++ check (runes_of_ascii "options { a = `d`; }")).
-Eval vm_compute in ("<<<M3127>>>" ++ check (runes_of_ascii "// c 	
-packet A {
-}")).
-Eval vm_compute in ("<<<M3077>>>" ++ check (runes_of_ascii "// c" ++ [133]%N ++ runes_of_ascii "
-packet A {
-}")).
-Eval vm_compute in ("<<<M1063>>>" ++ check (runes_of_ascii "packet x_y_z {
-}
-")).
-Eval vm_compute in ("<<<M3129>>>" ++ check (runes_of_ascii "packet A {
-}// c" ++ [8203]%N)).
-Eval vm_compute in ("<<<M2025>>>" ++ check (runes_of_ascii "root
-packet cr")).
-Eval vm_compute in ("<<<M2668>>>" ++ check (runes_of_ascii "options A { }")).
-Eval vm_compute in ("<<<M1052>>>" ++ check (runes_of_ascii "options {}")).
-Eval vm_compute in ("<<<M2502>>>" ++ check (runes_of_ascii "// ab
-c")).
-Eval vm_compute in ("<<<M2432>>>" ++ check (runes_of_ascii "zchar[")).
-Eval vm_compute in ("<<<M2464>>>" ++ check (runes_of_ascii "match")).
-Eval vm_compute in ("<<<M643>>>" ++ check (runes_of_ascii "  
+Eval vm_compute in ("<<<M4393>>>" ++ check (runes_of_ascii "packet
 
+chars{ repeat
+pack ,}
 ")).
-Eval vm_compute in ("<<<M2437>>>" ++ check (runes_of_ascii "u80")).
-Eval vm_compute in ("<<<M2133>>>" ++ check (runes_of_ascii "Me")).
-Eval vm_compute in ("<<<M2551>>>" ++ check ([233]%N)).
+Eval vm_compute in ("<<<M2795>>>" ++ check (runes_of_ascii "<|FXC|?SbA8$TVGm\{-S%&F;R{X5")).
+Eval vm_compute in ("<<<M4204>>>" ++ check (runes_of_ascii "packet A
+
+    {  }// c" ++ [12]%N ++ runes_of_ascii "
+")).
+Eval vm_compute in ("<<<M642>>>" ++ check (runes_of_ascii "packet u{
+    } // a // b")).
+Eval vm_compute in ("<<<M746>>>" ++ check (runes_of_ascii "// a // b
+ // @lengthOf(")).
+Eval vm_compute in ("<<<M3383>>>" ++ check (runes_of_ascii "packet
+// c
+lengthOf { }")).
+Eval vm_compute in ("<<<M4368>>>" ++ check (runes_of_ascii "packet lengthOf {
+}// c")).
+Eval vm_compute in ("<<<M2050>>>" ++ check (runes_of_ascii "@tag( A { u64 pack, }")).
+Eval vm_compute in ("<<<M2664>>>" ++ check (runes_of_ascii "options { a = [1]; }")).
+Eval vm_compute in ("<<<M3147>>>" ++ check (runes_of_ascii "// c x
+packet A {
+}")).
+Eval vm_compute in ("<<<M3067>>>" ++ check (runes_of_ascii "// c" ++ [12288]%N ++ runes_of_ascii "
+packet A {
+}")).
+Eval vm_compute in ("<<<M3168>>>" ++ check (runes_of_ascii "packet A { // a
+ }")).
+Eval vm_compute in ("<<<M3109>>>" ++ check (runes_of_ascii "packet A {
+}// c" ++ [8287]%N)).
+Eval vm_compute in ("<<<M1428>>>" ++ check (runes_of_ascii "root packet Foo")).
+Eval vm_compute in ("<<<M2707>>>" ++ check ([65533; 65533; 65533; 65533; 65533; 18; 7; 65533]%N ++ runes_of_ascii "p" ++ [65533]%N ++ runes_of_ascii "e~" ++ [65533]%N)).
+Eval vm_compute in ("<<<M1909>>>" ++ check (runes_of_ascii "
+packet	As")).
+Eval vm_compute in ("<<<M2843>>>" ++ check (runes_of_ascii "] repeat")).
+Eval vm_compute in ("<<<M2470>>>" ++ check (runes_of_ascii "'\x00'")).
+Eval vm_compute in ("<<<M2672>>>" ++ check (runes_of_ascii "u8 x,")).
+Eval vm_compute in ("<<<M2446>>>" ++ check (runes_of_ascii "true")).
+Eval vm_compute in ("<<<M2499>>>" ++ check (runes_of_ascii "//")).
+Eval vm_compute in ("<<<M2504>>>" ++ check (runes_of_ascii """""")).
+Eval vm_compute in ("<<<M2684>>>" ++ check ([65279]%N)).
